@@ -12,2682 +12,1241 @@ Definition show_fres (r : fres) : string :=
   end.
 Definition check (rs : list rune) : string := digest (show_fres (format_res rs)).
 Definition full (rs : list rune) : string := show_fres (format_res rs).
-Eval vm_compute in ("<<<M974>>>" ++ check (runes_of_ascii "options
-    { As
-= false}packet
-stringy { @calculatedFrom( """ ++ [128512]%N ++ runes_of_ascii """ ) @calculatedFrom( ""\n"" ) MetaDataX metadata
-, @tag(
-7 ) u64
-    packetx
-, u
-    // trailing space 
-    charz `// not a comment` , @rightPad
-(
-    ) repeat
-    i16	As`{ , }`
-// c
-//	t
-,@rightPad
-    (  ' '
-) /// triple
-@lengthOf(
-uint8x )
-msg_type { repeat options1 // " ++ [27880; 37322]%N ++ runes_of_ascii "
-{ //	t
-string
-body , } , repeat int8 T//
-,float32 len ,  pack
-/// triple
-// trailing space 
-{repeat u16 lengthOf `line1
-line2` ,  i32 len@lengthOf(	MetaDataX)
-    `" ++ [233]%N ++ runes_of_ascii "`
-,uint8x	{ BodyLength
-    @lengthOf(
-x
-) , zchar[255]falsey	@lengthOf(Logon ) `crlf
-line` , /// triple
-},u8x
-, } , /// triple
+Eval vm_compute in ("<<<M1571>>>" ++ check (runes_of_ascii "options {
+    ArrayPrefixLenType = u16;
+    FixedStringPadFromLeft = true;
+    JavaPackage = ""com.example.msg"";
+    GoPackage = ""msg"";
+    GoModule = ""example.com/msg"";
 }
-    // " ++ [27880; 37322]%N ++ runes_of_ascii "
-    , @lengthOf( matchKey
-) int ,} root packet Packet { uint16 u `a\`
-,
-    @leftPad ( '0'  )repeat
-//x
-// c
-msg_type
-{ falsey { repeatCount { uint32 As /// triple
-, char[] repeatCount ,} ,}
-, }
-    ,@leftPad (
-'0' )
-@tag(
-3) match
-    calculatedFrom as asx { ""{,}""  : float, 1 : MetaDataX
-""\" ++ [233]%N ++ runes_of_ascii """ // " ++ [27880; 37322]%N ++ runes_of_ascii "
-:	_x
-, 10
-    :
-string_ 0 : lengthOf
-} /// triple
-, u body
-    , f32 Pad
-    @lengthOf( MetaDataX )
-    // c
-    `" ++ [28040; 24687; 31867; 22411]%N ++ runes_of_ascii "` ,
-    zchar[ 42 ]
-u `{ , }`	, @calculatedFrom( ""\n"" )
-    // c
-    string
-T
-@lengthOf( tag //x
-)
-`say ""hi""` , // c
-@rightPad // c
-('0'
-    )
-match body as uint8x { [4294967296
-, 1 , 00,
-""x y""]
-    : a1 ,} , } packet
-a1 {@tag(
-    42
-)
-    u16 tag @lengthOf(MetaDataX
-    )
-,
-    uint64 int `tab	here` , string float
-    @lengthOf( packetx )// " ++ [128512]%N ++ runes_of_ascii " emoji
-`crlf
-line`
-    , float32 options1`it's` , @calculatedFrom( ""CRC32""	) uint8 crc , @tag( 1
-) metadata f32a
-    `" ++ [233]%N ++ runes_of_ascii "`
-, @rightPad( // packet A { u8 x, }
-'\x00'
-)
-@lengthOf(pack)	@tag( 0123456789 )float32 uint8x
-    @lengthOf(
-    u ) // packet A { u8 x, }
-,
-    //
-    } root packet i8i8
-{
-    match
-MetaDataX
-as
-o { ""// no comment""
-: options1
-,
-7
-: i8i8 [""{,}"", ""// no comment"",
-""" ++ [128512]%N ++ runes_of_ascii """ , 10 , ""\n""	,  ""// no comment"" ,
-""abc""
-    ] : As ,
-[ ""packet""
-    /// triple
-    ,  ""a\""b"", 10,""x y"",	""{,}"" ,
-007
-, 1,
-""// no comment""
-    ] :
-BodyLength ,
-} , // `tick` ""quote"" 'q'
-@tag( 42 )
-repeat string x_y_z	, f32a @calculatedFrom(
-""""	) ,match u128 // a // b
-as // a // b
-Z9_ { """ ++ [28040; 24687]%N ++ runes_of_ascii """ : lengthOf ""\" ++ [233]%N ++ runes_of_ascii """
-//
-// `tick` ""quote"" 'q'
-: string_ ,}, @tag( 4294967296	)  u64 f32a , string	roots@calculatedFrom(	""\" ++ [233]%N ++ runes_of_ascii """ ) // `tick` ""quote"" 'q'
-`// not a comment`
-, //	t
+MetaData Meta {
+    u32 SeqNum `sequence number`,
+    char[8] Symbol `symbol`,
+    zchar[5] ZSym `z symbol`,
+    string Note,
+    Symbol AltSymbol `alias of symbol`,
+    f64 Price,
 }
-")).
-Eval vm_compute in ("<<<M28>>>" ++ check (runes_of_ascii "packet
-tag { repeat
-    //
-    T MetaDataX
-    , @calculatedFrom(
-//
-/// triple
-""`tick`""  ) @tag( 007 ) leftPad `tab	here` , @tag( 0123456789  )
-char x , @tag(0 ) u64 tag
-    ,
-i8 roots
-    // a // b
-    ,
-    @lengthOf(
-float ) @tag( 10 )
-// c
-// `tick` ""quote"" 'q'
-body { chars
-{repeat int8  body , }  , repeat Header {char[]
-    leftPad	, },	match  Logon as zchar  { 4294967296 :
-    len , ""a\""b"":A //
-00
-: x_y_z,
-} , repeat i16	options1
-, }
-    , @calculatedFrom( """ ++ [128512]%N ++ runes_of_ascii """)@rightPad ( '0'
-) i16 Pad , //
-int64
-    As @lengthOf(
-crc ) , } MetaData x_y_z {u crc
-, } root packet
-Z9_{ @calculatedFrom( ""{,}"" ) tag, @lengthOf( lengthOf ) zchar[  42 ] crc //x
-`" ++ [233]%N ++ runes_of_ascii "`
-// a // b
-// @lengthOf(
-, char[ 007 ] options1 ,
-}packet
-    // `tick` ""quote"" 'q'
-    x {char	trueish
-    ,	char[] packetx @calculatedFrom(""" ++ [28040; 24687]%N ++ runes_of_ascii """)
-    `line1
-line2` ,  zchar[
-1
-    ]
-    Foo // " ++ [128512]%N ++ runes_of_ascii " emoji
-, zchar[ 00 ]
-A , match msg_type as tag { """" : leftPad , [ """ ++ [128512]%N ++ runes_of_ascii """ ,
-    0 ,10
-    ,  3//	t
-] :
-Z9_,  ""it's"":	float , 10 : calculatedFrom ""x y"" // @lengthOf(
-:
-    f32a
-    007	: roots
-    , } // `tick` ""quote"" 'q'
-,} packet
-    u{ // trailing space 
-@calculatedFrom( ""\n"" ) @calculatedFrom( ""a\""b"" )	i64_
-rootA , match // @lengthOf(
-x as Logon {
-    1
-:
-    body,
-""a\\"" /// triple
-: _x ""packet"" : BodyLength,
-},
-    //x
-    @rightPad ( '\x00'//x
-) @calculatedFrom( """ ++ [128512]%N ++ runes_of_ascii """ )	repeat stringy { match
-//x
-// packet A { u8 x, }
-T as float { ""a\\"" : len
-    0:
-BodyLength , [ ""it's""
-, ""{,}"" , 255 // a // b
-, 0123456789, ""a\\"" ] :
-    Logon, 3:rootA
-    // " ++ [27880; 37322]%N ++ runes_of_ascii "
-    ,
-    }
-//
-// packet A { u8 x, }
-,
-} ,//
-u16 uint8x `{ , }`,
-// trailing space 
-//x
-@leftPad
-    // a // b
-    (
-'0' )  string i64_@lengthOf(  stringy  ),
-// `tick` ""quote"" 'q'
-// @lengthOf(
-u64 leftPad@calculatedFrom( // " ++ [27880; 37322]%N ++ runes_of_ascii "
-""a	b"" ) , repeat // @lengthOf(
-Header MetaDataX `a\`
-, @lengthOf(stringy
-    )	Packet
-leftPad , @tag( 00 ) repeat zchar _x `tab	here` , i32	matchKey , }
-")).
-Eval vm_compute in ("<<<M3904>>>" ++ check (runes_of_ascii "  options 
-{
-metadata
-= char[
-4294967296
-
-];
-	} packet  f32a
-
-    { 
-match Z9_
-as repeatCount
-	{
-
-    3:
-
-    crc
-	, ""{,}""
-    : 
-pack, },
-	char[]calculatedFrom 
-@lengthOf(	// @lengthOf(
-    MetaDataX) , @calculatedFrom(
-""`tick`""
-    )	// " ++ [128512]%N ++ runes_of_ascii " emoji
-	x_y_z 
-	    // " ++ [27880; 37322]%N ++ runes_of_ascii "
-      , 
-i8 leftPad
-    ,i8  uint8x
-    @calculatedFrom( ""packet""  ) // trailing space 
-  `// not a comment`
-,
-
-@calculatedFrom(  """" ) @tag( 007	)char[
-10
-
-]
-    T
-	@calculatedFrom(
-	""""//
-
-) ,
-    u8x
-{zchar @lengthOf(// packet A { u8 x, }
-      u) `{ , }` 
-// c
-  ,
-} , 
-float
-    `say ""hi""` 
-, 
-i64
-
-    packetx
-,
-    @lengthOf( BodyLength  ) string	calculatedFrom
-,
-
-    }packet  MetaDataX // " ++ [27880; 37322]%N ++ runes_of_ascii "
-    {  @calculatedFrom( ""{,}""  ) 
-match	/// triple
-metadata
-
-    as 	 //
-  _x  {
-""1"":  // c
-
-uint8x,
-
-""{,}""
-	:falsey	}	,
-    }
-packet // " ++ [27880; 37322]%N ++ runes_of_ascii "
-  Logon
-    {
-    o
-
-@lengthOf(
-i8i8
-    )
-
-    ,
-@rightPad(
-
-'0' )
-	int64 msg_type
-, char
-    calculatedFrom
-	,
-@tag(255 
-)
-
-i8i8
-
-@calculatedFrom(
-""x y""	)
-
-    ,
-i8i8  // @lengthOf(
-    	@calculatedFrom( ""\" ++ [233]%N ++ runes_of_ascii """ )
-
-    , 
-@tag( 0123456789
-
-)lengthOf,
-
-@lengthOf( // `tick` ""quote"" 'q'
-  o)
-@tag( 10
-) match options1 as 
-u {
-
-    ""1""
-    : Pad
-	, // c
-  ""\" ++ [233]%N ++ runes_of_ascii """	: metadata ,	// @lengthOf(
-	} ,
-	@tag( // " ++ [128512]%N ++ runes_of_ascii " emoji
-	1
-
-    )  @tag(	65535 )
-	@lengthOf( Packet 
-) repeat  T,
-	@tag( 
-4294967296
-    ) 
-match
-x_y_z 
-as 
-uint8x
-{
-""{,}""
-:
-
-uint8x
-	7: metadata,	7
-	: i64_
-
-    [  """ ++ [233]%N ++ runes_of_ascii "t" ++ [233]%N ++ runes_of_ascii """,
-
-    ""CRC32"", 	 // trailing space 
-    ""packet""
-    ,
-00 , 
-65535
-	, ""x y""
-,	// " ++ [27880; 37322]%N ++ runes_of_ascii "
-
-	""packet"" 	 //x
-] :	metadata ,	// packet A { u8 x, }
-	""packet"" :uint8x 
-,	}
-    , repeat
-
-    x
-
-    ,
-    }
-
-")).
-Eval vm_compute in ("<<<M948>>>" ++ check (runes_of_ascii "options { o // c
-= ""it's""; }
-/// triple
-/// triple
-packet calculatedFrom { int32 Header @calculatedFrom( ""x y""
-)
-    `" ++ [28040; 24687; 31867; 22411]%N ++ runes_of_ascii "`	,
-    @tag( // a // b
-0 ) @lengthOf( f32a // " ++ [128512]%N ++ runes_of_ascii " emoji
-)match i64_ as T
-    // " ++ [27880; 37322]%N ++ runes_of_ascii "
-    { 255
-    :
-Foo 1
-: T
-,
-    ""a	b"":  Header , 1 : x, } , } root packet options1 {
-@leftPad ( // a // b
-' ' )
-    match
-uint8x as lengthOf  { ""`tick`""
-    // c
-    :
-x_y_z ,
-} , @calculatedFrom( ""a\""b""
-)repeat
-// trailing space 
-// " ++ [27880; 37322]%N ++ runes_of_ascii "
-body`
-`  ,
-char[ 10 ] float
-    // c
-    ,match
-stringy as repeatCount {[
-42
-// c
-/// triple
-, ""`tick`""
-    ]:
-    float , //	t
-""abc"": matchKey
-, // a // b
-7
-    :	As
-    255
-: pack
-,
-""{,}"" : len
-,
-3
-:	metadata	, } ,char[3 ] trueish @calculatedFrom(
-""CRC32""
-    )
-,
-    repeat charz { match Pad	as Z9_ { ""packet"" : f32a , ""{,}""
-: f32a 7 : _x ,  00 :repeatCount , 4294967296 : asx , ""CRC32""
-    : u128//x
-} ,
-    char[ 42 ] //	t
-crc `two words` ,
-// @lengthOf(
-//	t
-repeat Foo // @lengthOf(
-`doc` // a // b
-,} , } options // `tick` ""quote"" 'q'
-{ falsey =
-    false ;// trailing space 
-Header
-=true ; // `tick` ""quote"" 'q'
-packetx = u64
-    ; calculatedFrom
-//
-// a // b
-= ""\n"";
-    } packet
-    body {@tag( 42  ) repeat
-i16
-    u128`// not a comment`
-    ,@tag( 0 )@tag(  0123456789 ) @calculatedFrom( ""\n""	)
-zchar[ 255 ] x_y_z @lengthOf( stringy	) ,
-f32a @lengthOf(
-Logon
-    )
-,  repeat zchar[ 10] _x , float64 charz
-`` ,
-Pad
-@lengthOf(
-    u ) , body ``, }
-")).
-Eval vm_compute in ("<<<M4036>>>" ++ check (runes_of_ascii "
-packet 
-Packet {
-
-MetaDataX{ 
-	    // " ++ [128512]%N ++ runes_of_ascii " emoji
-// trailing space 
-  zchar[ 
-
-// @lengthOf(
-	255 ]
-crc
-@calculatedFrom( ""`tick`""  )
-`doc` , 	 // c
-  }
-    , u32  As
-    `
-`
-
-    ,
-@lengthOf(
-chars )f64
-
-leftPad `// not a comment` ,
-
-    repeat char[ 3
-	]
-len 
-`doc`, 
-match
-    u8x
-    as chars {  4294967296 
-:
-f32a
-
-,
-
-    [ 255 
-,4294967296 
-]: string_
-	0 :	chars
-	,  // packet A { u8 x, }
-""a\""b""	:
-    options1
-
-    7 :  falsey
-
-    ,
-
-},
-	@lengthOf(	// c
-    len 
-    // `tick` ""quote"" 'q'
-  // @lengthOf(
-
-) 
-repeat
-	char[
-10  
-      // " ++ [27880; 37322]%N ++ runes_of_ascii "
-  	] Header
-    `crlf
-line` 
-,  // " ++ [27880; 37322]%N ++ runes_of_ascii "
-
-	rootA
-asx
-`two words` , }
-
-packet //x
-    	Packet {
-
-@tag(//
-	00)u16 asx,
-	@calculatedFrom(
-
-""a\""b""
-
-    )
-charz  @lengthOf(
-	a1
-	),
-    @lengthOf( asx
-	)
-repeat
-string
-
-    falsey ,u32
-options1
-
-@lengthOf(
-packetx	) `it's`	//x
-  	,
-} packet  metadata{ 
-int16
-    i8i8	, i32 tag 
-
-//x
-
-  //
-    `line1
-line2`
-	, @calculatedFrom(
-	""a\\"" 
-
-//x
-	//	t
-    ) 	 // trailing space 
-    @lengthOf(
-repeatCount
-) 
-MetaDataX
-    {
-repeat
-
-    x_y_z , }
-,
-    lengthOf
-tag `" ++ [233]%N ++ runes_of_ascii "` ,
-}  MetaData//	t
-  Foo
-    {
-	body 
-chars
-, char[] asx
-    `// not a comment`
-, char
-
-u8x 
-
-    //
-	  // a // b
-	,
-	x 
-trueish `crlf
-line`
-
-,
-
-char[]
-	options1 `u8 x,`
-, } ")).
-Eval vm_compute in ("<<<M867>>>" ++ check (runes_of_ascii "packet asx { a1
-{ match
-pack
-//	t
-//	t
-as
-body {
-    255:	rootA , } ,
-x_y_z
-//x
-//	t
-@calculatedFrom(
-"""" ) ,repeat A metadata, }
-,	match
-    // `tick` ""quote"" 'q'
-    stringy
-as BodyLength { 00
-// @lengthOf(
-// `tick` ""quote"" 'q'
-:charz ,
-[00
-,
-    65535
-, ""a\\"",
-    ""{,}""
-,0
-    // trailing space 
-    ]
-:
-lengthOf ,	[ ""\" ++ [233]%N ++ runes_of_ascii """ ] :
-chars [4294967296 , 4294967296 ,
-/// triple
-//	t
-""\n"" , """ ++ [233]%N ++ runes_of_ascii "t" ++ [233]%N ++ runes_of_ascii """ ]  :	Foo , [ 42
-    ,00//x
-, ""// no comment""
-    ,
-    """",""`tick`""
-    , ""1"" , 3,
-""packet"" ]:
-matchKey , /// triple
-""\n"" :
-repeatCount
-, }	, repeat chars , repeat o lengthOf//
-`it's` , x { uint16
-A`doc` ,match	A as
-pack	{
-    ""abc"" :u8x ,007 :BodyLength,	""a\""b"" : charz, 7: _x ,
-0 :Logon , } ,
-string_, Logon @calculatedFrom( """ ++ [128512]%N ++ runes_of_ascii """
-)  `` , }// c
-, @calculatedFrom(""" ++ [28040; 24687]%N ++ runes_of_ascii """ )
-    // `tick` ""quote"" 'q'
-    @lengthOf( body
-    // a // b
-    ) char[] a1 // c
-`a\` , repeat uint8x msg_type
-    , repeat char[ 0123456789
-    ]
-/// triple
-/// triple
-len ,char[ 10 ] uint8x@calculatedFrom( ""CRC32""
-)
-,  }
-packet Header {
-// c
-// @lengthOf(
-@tag(65535 )options1 ,  @rightPad
-( '\x00'
-)repeat
-_x ,
-@calculatedFrom(// c
-""\" ++ [233]%N ++ runes_of_ascii """
-    // " ++ [27880; 37322]%N ++ runes_of_ascii "
-    )int16 len	`crlf
-line` ,
-f32 trueish,
-}")).
-Eval vm_compute in ("<<<M1394>>>" ++ check (runes_of_ascii "options {
-	StringPrefixLenType = u16;
-	ArrayPrefixLenType = u16;
+packet Inner {
+    u8 a,
+    i16 b,
+    string c,
 }
-
-packet SampleBinary {
-	uint16 MsgType `" ++ [28040; 24687; 31867; 22411]%N ++ runes_of_ascii "`,
-	u16 BodyLenght @lengthOf(Body) `" ++ [28040; 24687; 20307; 38271; 24230]%N ++ runes_of_ascii "`,
-	match MsgType as Body {
-		1 : Logon,
-		2 : Logout,
-		3 : Heartbeat,
-		4 : RiskControlRequest,
-		5 : RiskControlResponse,
-	},
-	@calculatedFrom(""CRC32"")
-	u32 Ckecksum `" ++ [26657; 39564; 21644]%N ++ runes_of_ascii "`,
+packet Inner2 {
+    u8 a2,
+    char[3] c2,
 }
-
 packet Logon {
-	@leftPad('0')
-	char[10] UserName `" ++ [29992; 25143; 21517]%N ++ runes_of_ascii "`,
-	string Password `" ++ [23494; 30721]%N ++ runes_of_ascii "`,
-	uint64 ClientId `" ++ [23458; 25143; 31471]%N ++ runes_of_ascii "ID`,
-	u16 HeartbeatInterval `" ++ [24515; 36339; 38388; 38548]%N ++ runes_of_ascii "`,
+    u8 x,
+    string user,
+    repeat u16 codes,
 }
-
 packet Logout {
-	@rightPad('0')
-	char[10] UserName `" ++ [29992; 25143; 21517]%N ++ runes_of_ascii "`,
-	uint64 ClientId `" ++ [23458; 25143; 31471]%N ++ runes_of_ascii "ID`,
+    u16 reason,
 }
-
-packet Heartbeat {
+packet Empty {
 }
-
-packet RiskControlRequest {
-	string UniqueOrderId `" ++ [21807; 19968; 35746; 21333; 21495]%N ++ runes_of_ascii "`,
-	char[16] ClOrdID `" ++ [23458; 25143; 35746; 21333; 21495]%N ++ runes_of_ascii "`,
-	char[3] MarketID `" ++ [24066; 22330]%N ++ runes_of_ascii "id`,
-	char[12] SecurityID `" ++ [35777; 21048; 20195; 30721]%N ++ runes_of_ascii "`,
-	char Side `" ++ [20080; 21334; 26041; 21521]%N ++ runes_of_ascii "`,
-	char OrderType `" ++ [35746; 21333; 31867; 22411]%N ++ runes_of_ascii "`,
-	u64 Price `" ++ [20215; 26684]%N ++ runes_of_ascii "`,
-	u32 Qty `" ++ [25968; 37327]%N ++ runes_of_ascii "`,
-	repeat string ExtraInfo `" ++ [38468; 21152; 20449; 24687]%N ++ runes_of_ascii "`,
-	repeat SubOrder {
-		char[16] ClOrdID `" ++ [23376; 35746; 21333; 21495]%N ++ runes_of_ascii "`,
-		u64 Price `" ++ [23376; 35746; 21333; 20215; 26684]%N ++ runes_of_ascii "`,
-		u32 Qty `" ++ [23376; 35746; 21333; 25968; 37327]%N ++ runes_of_ascii "`,
-	},
+root packet Msg {
+    u8 su8,
+    uint8 luint8,
+    u16 su16,
+    uint16 luint16,
+    u32 su32,
+    uint32 luint32,
+    u64 su64,
+    uint64 luint64,
+    i8 si8,
+    int8 lint8,
+    i16 si16,
+    int16 lint16,
+    i32 si32,
+    int32 lint32,
+    i64 si64,
+    int64 lint64,
+    f32 sf32,
+    float32 lfloat32,
+    f64 sf64,
+    float64 lfloat64,
+    char[6] fsplain,
+    @leftPad('0') char[4] fs0,
+    @rightPad('0') char[5] fs1,
+    @leftPad(' ') char[6] fs2,
+    @rightPad(' ') char[7] fs3,
+    @leftPad('\x00') char[8] fs4,
+    @rightPad('\x00') char[9] fs5,
+    @leftPad() char[10] fs6,
+    @rightPad() char[11] fs7,
+    zchar[7] fz,
+    @leftPad('0') zchar[3] fzl0,
+    string s1 `doc`,
+    char[] s2,
+    Inner,
+    Sub {
+        u8 q,
+        string w,
+        Deep {
+            u16 z,
+            repeat i32 zs,
+        },
+    },
+    repeat u8 ru8,
+    repeat u16 ru16,
+    repeat u32 ru32,
+    repeat u64 ru64,
+    repeat i8 ri8,
+    repeat i16 ri16,
+    repeat i32 ri32,
+    repeat i64 ri64,
+    repeat f32 rf32,
+    repeat f64 rf64,
+    repeat string rstr,
+    repeat char[] rstr2,
+    repeat char[3] rfs,
+    repeat zchar[3] rfz,
+    repeat Inner2,
+    repeat Grp {
+        u8 k,
+        char[2] v,
+    },
+    SeqNum,
+    SeqNum seq2,
+    repeat SeqNum seqs,
+    Symbol,
+    AltSymbol alt,
+    ZSym,
+    Note,
+    repeat Symbol syms,
+    Price px,
+    u16 MsgType,
+    u32 BodyLen @lengthOf(Body),
+    match MsgType as Body {
+        1 : Logon,
+        [2, 3] : Logout,
+        7 : Logon,
+        9 : Empty,
+    },
+    u32 Checksum @calculatedFrom(""CRC32""),
 }
-
-packet RiskControlResponse {
-	string UniqueOrderId `" ++ [21807; 19968; 35746; 21333; 21495]%N ++ runes_of_ascii "`,
-	i32 Status `" ++ [29366; 24577]%N ++ runes_of_ascii "`,
-	string Msg `" ++ [32467; 26524; 20449; 24687]%N ++ runes_of_ascii "`,
-	repeat Detail,
-}
-
-packet Detail {
-	string RuleName `" ++ [35268; 21017; 21517; 31216]%N ++ runes_of_ascii "`,
-	u16 Code `" ++ [21407; 22240; 20195; 30721]%N ++ runes_of_ascii "`,
-}")).
-Eval vm_compute in ("<<<M674>>>" ++ check (runes_of_ascii "root packet  Foo	{
-repeat
-Packet { match i64_ as f32a{ ""1"" : Z9_, } ,
-match
-    // " ++ [128512]%N ++ runes_of_ascii " emoji
-    options1  as stringy{
-[
-1
-] :Foo	1 : x_y_z
-    // trailing space 
-    ,
-// packet A { u8 x, }
-// packet A { u8 x, }
-[ 7 , 42
+")).
+Eval vm_compute in ("<<<M68>>>" ++ check (runes_of_ascii "MetaData
+len { i8 BodyLength , u32
+    u `tab	here`,
+    // `tick` ""quote"" 'q'
+    calculatedFrom	asx `" ++ [28040; 24687; 31867; 22411]%N ++ runes_of_ascii "` /// triple
 ,
-""1""  , """ ++ [233]%N ++ runes_of_ascii "t" ++ [233]%N ++ runes_of_ascii """ ,
-""\" ++ [233]%N ++ runes_of_ascii """
-, """ ++ [128512]%N ++ runes_of_ascii """ , ""{,}"" ] // packet A { u8 x, }
-: float,
-0123456789 : x ,	} , }
-, @lengthOf(// `tick` ""quote"" 'q'
-u // " ++ [128512]%N ++ runes_of_ascii " emoji
-) char[] // " ++ [128512]%N ++ runes_of_ascii " emoji
-MetaDataX ,@tag( 4294967296
-) u128 , @calculatedFrom( """ ++ [128512]%N ++ runes_of_ascii """ )@tag( 4294967296 ) MetaDataX
-    // @lengthOf(
-    @calculatedFrom( """ ++ [128512]%N ++ runes_of_ascii """
-) `tab	here` ,
-    } packet BodyLength
-    {
-    char[ 0]u128	``// packet A { u8 x, }
-, i64_
+Logon Packet `// not a comment`
     ,
-    repeat//
-matchKey{
-    char[]
-x  `u8 x,`
-, u128 f32a `u8 x,`
-, char[	42 ]  calculatedFrom ,packetx @calculatedFrom(// packet A { u8 x, }
-""" ++ [128512]%N ++ runes_of_ascii """ ) `a\`  , } , @lengthOf( Foo ) @rightPad
-(
-    // trailing space 
-    '0'  ) int64	o
-// trailing space 
-// `tick` ""quote"" 'q'
-@lengthOf( float	) , }
-    MetaData
-// a // b
-// `tick` ""quote"" 'q'
-_x
-// @lengthOf(
-// " ++ [27880; 37322]%N ++ runes_of_ascii "
-{
-u16 x_y_z ,
-    //x
-    zchar[ 42 ] falsey , }")).
-Eval vm_compute in ("<<<M4262>>>" ++ check (runes_of_ascii "packet zchar {
-    uint8x {
-        MetaDataX,
-        match stringy as calculatedFrom {
-            """" : options1,
-            ""// no comment"" : u,
-            ""\" ++ [233]%N ++ runes_of_ascii """ : body,
-            [""abc"", ""it's"", 007] : packetx,
-            65535 : roots,
-        },
-        zchar[10] lengthOf `two words`,
-    },
-    //
-    // packet A { u8 x, }
-}
-
-root packet Header {
-    repeat f32a o `two words`,
-    @lengthOf(f32a)
-    char[42] uint8x,
-    @tag(42)
-    float @lengthOf(MetaDataX),
-    string T,
-    match _x as leftPad {
-        0123456789 : stringy,
-    },
-    @leftPad()
-    repeat uint8x {
-        string_ {
-            char[255] a1 @calculatedFrom(""abc""),
-            metadata @lengthOf(asx),
-        },
-        repeat falsey,
-        Logon {
-            As,
-            repeat char[] u,
-        },
-    },
-    @leftPad(' ')
-    char[10] charz @lengthOf(float),
-    @calculatedFrom(""" ++ [233]%N ++ runes_of_ascii "t" ++ [233]%N ++ runes_of_ascii """)
-    i64 trueish `two words`,
-}
-
-options {
-    options1 = 7;
-    u = """";
-}")).
-Eval vm_compute in ("<<<M712>>>" ++ check (runes_of_ascii "root packet //
-Pad {
-    char[
-00
+    } //
+root packet string_ { zchar[ 00
 ]
-stringy @calculatedFrom( ""\" ++ [233]%N ++ runes_of_ascii """ ) `it's`,zchar{
-falsey
-Header // @lengthOf(
-`two words` , Packet
-@lengthOf( int ) `` ,charz
-asx , u32 A , }	, string
-    metadata, repeat
-char[
-1 ]	crc`
-`
-, Foo `it's` ,}packet
+options1	, match
+x_y_z as msg_type{	""it's""
     // c
-    rootA
-    { repeat
-    i32 matchKey , repeat x_y_z `// not a comment`, roots
+    :  T 0123456789: a1 10 :
+trueish
+, } ,} packet
+len { int64 crc ,  body {
+f64 leftPad , a1, }
+    , repeat uint8x {repeat f32
+string_`" ++ [28040; 24687; 31867; 22411]%N ++ runes_of_ascii "`
+    , int8 T @calculatedFrom( """"
+    ) `line1
+line2` ,
+uint8 repeatCount	,
+} , u64 Foo `line1
+line2`	, @tag(1 ) repeat
+matchKey
+{ i8	x_y_z @lengthOf(Z9_ )// packet A { u8 x, }
+`tab	here` , calculatedFrom
+trueish// trailing space 
+, uint16 charz
+    // packet A { u8 x, }
     @calculatedFrom(
-""\n"" ),
-x_y_z {
-    zchar[ 42]
-// packet A { u8 x, }
-// " ++ [27880; 37322]%N ++ runes_of_ascii "
-charz@lengthOf( u128 ) // " ++ [128512]%N ++ runes_of_ascii " emoji
-, leftPad`line1
-line2` ,}
-, falsey crc`crlf
-line`,
-    repeat
-// " ++ [128512]%N ++ runes_of_ascii " emoji
-// c
-char
-i64_ `a\` , }
-    packet Packet { repeat //	t
-i64_{ repeat metadata  { repeatCount `{ , }`,  int16// c
-o , },
-    //	t
-    repeat uint64	A , float @calculatedFrom(
-""a\""b""
-    )
-, zchar[	7 ]
-T , }
-, @leftPad
-( '\x00')
-    repeatCount	`a\` , } MetaData o // " ++ [27880; 37322]%N ++ runes_of_ascii "
-{
-    // a // b
-    int
-// packet A { u8 x, }
+    ""{,}"" )`line1
+line2`	, } ,
 // @lengthOf(
-repeatCount`line1
-line2` ,} options	{ msg_type
-=
-00//x
-}")).
-Eval vm_compute in ("<<<M747>>>" ++ check (runes_of_ascii "packet u8x {@tag( 0)
-match Header as	packetx
-// " ++ [128512]%N ++ runes_of_ascii " emoji
-//x
-{""\n"":	o , 0 :
-    Foo ,4294967296: rootA
-,
-    255 /// triple
-:i8i8 }
-,// `tick` ""quote"" 'q'
-repeat //	t
-uint8 stringy , chars ,
-uint64 options1 `say ""hi""`
-,@lengthOf( float )
-    string leftPad ,  x body // packet A { u8 x, }
-`line1
-line2`
-, @calculatedFrom(  ""// no comment"" ) uint16// a // b
-chars @calculatedFrom(
-""`tick`"" ) , }packet
-    Header {@calculatedFrom(
-    ""\" ++ [233]%N ++ runes_of_ascii """
-)
-zchar[ 007 ] As @lengthOf(
-    // @lengthOf(
-    Header )
-, Header
-// a // b
-//x
-@lengthOf( leftPad ) `doc` ,
-    repeat zchar	calculatedFrom ,	@lengthOf( float// `tick` ""quote"" 'q'
-) zchar[ 0123456789
-    ] trueish`` /// triple
-,
-    match x as
-string_ {
-[
-255] : A ,
-""abc"" : Packet , [//x
-""`tick`""
-    ,10
-    ]
-: Pad,
-    }
-,}  packet len {// " ++ [128512]%N ++ runes_of_ascii " emoji
-i8i8 body , } MetaData x
-    {float32 Header , uint8 A ,i8i8
-o , }
-
-")).
-Eval vm_compute in ("<<<M4136>>>" ++ check (runes_of_ascii "
-
-  packet 
-Pad{@leftPad  (	'\x00'	)
-
-    @tag(  42
-)
-
-@rightPad  (
-' ' )uint8 
-asx
-// c
-  ,	@rightPad
-    ( )string
-a1
-	,
-u8x
-@calculatedFrom(
-	""" ++ [128512]%N ++ runes_of_ascii """) 
-, 
-@tag(1
-	)
-    zchar[
-    255 ]u128
-, @tag(
-00 )
-match
-//x
-      //	t
-  u128 as
-    zchar {
-    3
-	:
-	tag  , 
-[ """ ++ [233]%N ++ runes_of_ascii "t" ++ [233]%N ++ runes_of_ascii """
-
-]  : // " ++ [27880; 37322]%N ++ runes_of_ascii "
-	  int
-
-    ,
-    } , @leftPad
-    (	) zchar[
-    7]
-zchar @lengthOf(
-lengthOf	)  , 
-repeat
-Packet Foo
-`a\` , @lengthOf(msg_type 
-)@rightPad
-	(	'0' ) @tag(
-
-255 )string	tag
-
-//	t
-	//
-@lengthOf(roots // a // b
-  ) `say ""hi""`,	repeat 	 // " ++ [128512]%N ++ runes_of_ascii " emoji
-    	Logon f32a, }packet uint8x  {
-    // trailing space 
-	@rightPad
-	( ' '
-
-) 
-@lengthOf(
-Header
-) zchar[ 7] u,
-	} // " ++ [128512]%N ++ runes_of_ascii " emoji
-    MetaData
-    a1 {rootA msg_type
-
-    ,
-u16  
-  /// triple
-    	lengthOf `it's`
-	,
-	f32
-
-    u8x,	}  
-  // c
-  packet	trueish
-
-{
-}
-")).
-Eval vm_compute in ("<<<M4210>>>" ++ check (runes_of_ascii "packet f32a {
-    @calculatedFrom(""1"")
-    _x {
-        string metadata @calculatedFrom(""`tick`"") `// not a comment`,
-        match Foo as len {
-            42 : Z9_,
-            //x
-        },
-    },
-}
-
-packet options1 {
-    @lengthOf(A)
-    roots @lengthOf(msg_type) `line1
-        line2`,
-    int32 a1 `it's`,
-    @calculatedFrom(""packet"")
-    repeat string T,
-    @lengthOf(i64_)
-    @calculatedFrom(""packet"")
-    @tag(007)
-    int16 asx @calculatedFrom(""it's"") `doc`,
-    repeat i32 charz,
-    metadata `// not a comment`,
-}
-
-packet Logon {
-}
-
-options {
-}
-
-root packet tag {
-    @lengthOf(Logon)
-    charz {
-        string stringy `// not a comment`,
-        uint64 int,
-        char i64_ `it's`,
-    },
+//
+uint32
+    metadata, @lengthOf( msg_type )repeat Packet { zchar[
+255
+]u8x @calculatedFrom( ""x y"")
+//
+// packet A { u8 x, }
+`crlf
+line`	, repeat
+// `tick` ""quote"" 'q'
+//
+u128 ,// packet A { u8 x, }
+float64 int ,
+    repeat Header	{ char[ 42 ]roots
+    @calculatedFrom(
     //	t
-    //
-    u8 i64_,
-    zchar[1] float,
-}/// triple")).
-Eval vm_compute in ("<<<M4017>>>" ++ check (runes_of_ascii "  options
-
-    {leftPad
-
-    =
-	""{,}"" f32a
-    =
-true trueish= 
-zchar[ 007 
-]
-	; 
-crc
-    // " ++ [27880; 37322]%N ++ runes_of_ascii "
-
-	// @lengthOf(
-  = ""`tick`""
-    ; // c
-	}//x
-	root
-packet body
-
+    ""CRC32"") `two words`,
+roots @calculatedFrom( ""a	b"" ) `two words`
+// packet A { u8 x, }
+// c
+, u32
+    // c
+    packetx
+@lengthOf( roots
+) , repeat float	BodyLength	`" ++ [233]%N ++ runes_of_ascii "` , } , }	,match
+float
+as A
+{	[ 7 , ""a	b"" ]
+:	Header ,[
+007	, ""1""
+    ]
+// @lengthOf(
+// @lengthOf(
+: charz
+    , ""\" ++ [233]%N ++ runes_of_ascii """ : i8i8 00 :	charz // packet A { u8 x, }
+42	:i64_
+, } , match
+// `tick` ""quote"" 'q'
+//
+uint8x as u8x{ 255 :
+    int } ,	}
+")).
+Eval vm_compute in ("<<<M1525>>>" ++ check (runes_of_ascii "packet Frame
+    // c1
+{ // c2a
+  // c2b
+u8
+    // c3
+HK
+    // c4
+, // c5a
+  // c5b
+u8 BK
+    // c7
+, u8 TK
+    // c10
+, // c11a
+  // c11b
+match // c12
+HK // c13
+as // c14
+Hdr // c15a
+  // c15b
 {
-asx
+    // c16
+1 // c17
+: HdrA , // c20a
+  // c20b
+2
+    // c21
+: // c22
+HdrB // c23a
+  // c23b
+, } // c25
+,
+    // c26
+match
+    // c27
+BK // c28a
+  // c28b
+as Body // c30a
+  // c30b
+{
+    // c31
+1 // c32a
+  // c32b
+:
+    // c33
+BodyA // c34a
+  // c34b
+, // c35
+2 : // c37a
+  // c37b
+BodyB
+    // c38
+,
+    // c39
+} , // c41
+match
+    // c42
+TK
+    // c43
+as
+    // c44
+Trl {
+    // c46
+1 : TrlA // c49
+, } // c51a
+  // c51b
+, // c52
+} // c53
+packet HdrA // c55
+{ u8
+    // c57
+a ,
+    // c59
+} packet
+    // c61
+HdrB // c62
+{ u16
+    // c64
+b // c65a
+  // c65b
+, } // c67a
+  // c67b
+packet // c68
+BodyA // c69a
+  // c69b
+{
+    // c70
+u32 c
+    // c72
+,
+    // c73
+}
+    // c74
+packet
+    // c75
+BodyB // c76
+{
+    // c77
+u64 d
+    // c79
+, // c80
+}
+    // c81
+packet
+    // c82
+TrlA // c83a
+  // c83b
+{ u8 e
+    // c86
+, } root // c89a
+  // c89b
+packet
+    // c90
+Msg // c91a
+  // c91b
+{ Frame , u8 // c95a
+  // c95b
+x // c96a
+  // c96b
+, } // c98
+")).
+Eval vm_compute in ("<<<M1731>>>" ++ check (runes_of_ascii "  options
+{
+	T
 
-    @lengthOf( f32a	// `tick` ""quote"" 'q'
-)	`` ,f64  body
-@lengthOf(
-int
-    )
-	,
+    = ' '}
+MetaData Pad
+	    //x
+  {
+    string_
+    u128  ,
+u64  // @lengthOf(
 
-    zchar[ 255  ]	BodyLength ,
+	uint8x
+`two words` ,
 
+int8 repeatCount 
+, }
+
+    packet 
+len
+{
+	Packet	`
+`
+	, @calculatedFrom( ""a\""b"" 
+)
     zchar[
-	7
-
-    ]leftPad
-    /// triple
-	// packet A { u8 x, }
-	`line1
-line2`,
-@lengthOf(	asx)u128
-	@lengthOf(  BodyLength ) 
-`// not a comment`
-    ,
-
-@lengthOf(  As
-    )	char[
 	42
 
-]_x
+]rootA ,
 
-    @lengthOf(i8i8 )`line1
-line2` 
-,
-    char[1 //	t
-	] 
-      // a // b
-	options1 
-@calculatedFrom(
-
-""packet"")
-
-    `say ""hi""`  ,}  options
-
-{leftPad 
-= 007 ;
-charz=false repeatCount 
-=""// no comment""
-u  // a // b
-=
-	0123456789
-	} ")).
-Eval vm_compute in ("<<<M546>>>" ++ check (runes_of_ascii "// a // b
-packet  rootA
-{
-@lengthOf( Packet
-    )	Logon { char[ 7 ]
-    /// triple
-    T //
-`
-`
-    // @lengthOf(
-    ,}, @lengthOf(  rootA
-) repeat zchar[00 ]	Header ,
-// c
-// packet A { u8 x, }
-repeat i8i8 {
-match Foo as i8i8 {
-[ 4294967296
-, 1 ,7, ""\" ++ [233]%N ++ runes_of_ascii """, ""\n"" ,
-42 , 255 ,007
-] : options1
-    ,
-4294967296 : pack
-""""
-:u8x,[
-65535 ,  ""\n""
-] :  pack , ""`tick`"" : Z9_ },float64 stringy ,} ,	@calculatedFrom(
-""`tick`""
-)x
-{
-A @lengthOf(
-    crc
-    ), char[ 00
-] roots
-, }, @lengthOf( int
-) // " ++ [27880; 37322]%N ++ runes_of_ascii "
-@lengthOf(
-    u8x	)// @lengthOf(
-@lengthOf(
-    a1 ) uint16 trueish
-    @calculatedFrom(
-    ""a\\""
-) //x
-, Header@lengthOf(MetaDataX )
-    `say ""hi""`  , roots	@lengthOf( a1 ),
-    }
-// " ++ [128512]%N ++ runes_of_ascii " emoji
-")).
-Eval vm_compute in ("<<<M579>>>" ++ check (runes_of_ascii "packet
-    A{
-    repeatCount
-    {
-    // " ++ [27880; 37322]%N ++ runes_of_ascii "
-    repeat string//	t
-falsey
-`" ++ [233]%N ++ runes_of_ascii "` , x Z9_ //x
-,rootA repeatCount`a\` , repeat // " ++ [128512]%N ++ runes_of_ascii " emoji
-char[]
-x_y_z
-``, }
-,} root packet
-    //
-    int
-    { @calculatedFrom( ""\n"") @calculatedFrom(
-    ""a\\"" // trailing space 
-) repeat lengthOf repeatCount `two words`
-// packet A { u8 x, }
-// c
-,} root packet
-BodyLength {
-@calculatedFrom( ""`tick`"" ) repeat asx { zchar[ 10 ]
-MetaDataX , repeat
-    char[ 4294967296 ] rootA`say ""hi""`
-    , uint64 As
-`" ++ [233]%N ++ runes_of_ascii "` ,
-chars
-u , } ,@tag( 0123456789	) @tag( 0 )string
-roots	`" ++ [28040; 24687; 31867; 22411]%N ++ runes_of_ascii "` ,
-    u8 crc /// triple
-`{ , }` , // a // b
-@calculatedFrom(
-    ""CRC32"")repeat i64_ _x ,
-char Packet , }")).
-Eval vm_compute in ("<<<M3975>>>" ++ check (runes_of_ascii "packet i8i8 {
-}
-
-options {
-    options1 = true;// " ++ [27880; 37322]%N ++ runes_of_ascii "
-}
-
-packet pack {
-    //	t
-    lengthOf {
-        char[10] len @calculatedFrom(""\" ++ [233]%N ++ runes_of_ascii """) `a\`,
-    },
-}
-
-root packet repeatCount {
-    u128 len `line1
-        line2`,
-    @calculatedFrom(""// no comment"")
-    repeat char[] zchar `// not a comment`,
-    a1,
-    repeat zchar[1] u `crlf
-        line`,
-}
-
-packet lengthOf {
-    @calculatedFrom(""packet"")
-    // a // b
-    float64 trueish @lengthOf(Z9_),
-    @leftPad()
-    match options1 as A {
-        ""it's"" : len,
-        [""""] : T,
-        [00] : calculatedFrom,
-        1 : MetaDataX,
-        4294967296 : u,
-    },
-}
-//")).
-Eval vm_compute in ("<<<M386>>>" ++ check (runes_of_ascii "// @lengthOf(
-root packet uint8x { repeat
-x_y_z //	t
-{ zchar[ 10
-] stringy@calculatedFrom(// `tick` ""quote"" 'q'
-""x y"" ) , // a // b
-}//	t
-,
-    i64
-body @lengthOf( options1
-    ) `u8 x,` ,lengthOf  {
-    // packet A { u8 x, }
-    match T
-as
-len {007
-    :
-    BodyLength 1 :	_x ""\n"" :	chars , 255
-: /// triple
-a1 , } , f64 roots
-@lengthOf(  Foo)
-    , lengthOf @lengthOf(  x_y_z
-    )`
-`,	repeat // `tick` ""quote"" 'q'
-string tag
-`tab	here` , } , // @lengthOf(
-} options
-{
-    falsey = char[ 0123456789
-    ]roots
-    // `tick` ""quote"" 'q'
-    = int64 // packet A { u8 x, }
-; A	= 007 }
-")).
-Eval vm_compute in ("<<<M3826>>>" ++ check (runes_of_ascii "// @lengthOf(
-root packet uint8x {
-    repeat x_y_z {
-        zchar[10] stringy @calculatedFrom(""x y""),// a // b
-    },
-    i64 body @lengthOf(options1) `u8 x,`,
-    lengthOf {
-        // packet A { u8 x, }
-        match T as len {
-            007 : BodyLength,
-            1 : _x,
-            ""\n"" : chars,
-            255 : a1,
-        },
-        f64 roots @lengthOf(Foo),
-        lengthOf @lengthOf(x_y_z) `
-                `,
-        repeat string tag `tab	here`,
-    },// @lengthOf(
-}
-
-options {
-    falsey = char[0123456789]
-    roots = int64;
-    A = 007
-}")).
-Eval vm_compute in ("<<<M310>>>" ++ check (runes_of_ascii "packet  T{ i8 MetaDataX	,
-    repeat x
-    {
-int32 lengthOf ,
-char[ 007 ]repeatCount
-`" ++ [233]%N ++ runes_of_ascii "`
-, string // " ++ [27880; 37322]%N ++ runes_of_ascii "
-Header @lengthOf(
-    len ),	}
-,	@rightPad (
-' '
-    ) @tag(	3  )
-@tag(
-00 ) char[ 00 ]rootA	, f64 string_ , @calculatedFrom( ""it's""
-// " ++ [27880; 37322]%N ++ runes_of_ascii "
-//
-) char[]falsey ``	,
-repeat
-    a1 {	i64_ u128 ,
-    zchar[
-4294967296 ]
-i8i8 ,
-Logon @lengthOf( packetx
-    // trailing space 
-    ) ,} , lengthOf float
-, @calculatedFrom( ""{,}""
-    ) u@lengthOf( rootA
-) `say ""hi""`
-//
-//x
-,	zchar[
-    //	t
-    10
-    ] metadata `` ,}
-options { } //	t")).
-Eval vm_compute in ("<<<M1209>>>" ++ check (runes_of_ascii "options { rootA = false ; }MetaData /// triple
-float { u16 falsey ``
-,  char[ 1 ]
-options1 , uint32 stringy `` , f32
-leftPad  `it's`	,
-    /// triple
-    x repeatCount ,asx
-    repeatCount
-`{ , }` ,
-    }  packet
-    rootA { @tag(
-    7 ) len string_ , } packet As
-{@leftPad ( ' '
-    // " ++ [128512]%N ++ runes_of_ascii " emoji
-    ) repeat chars { f32 leftPad @lengthOf( Packet ) `a\` ,
-    int32
-    //x
-    T `tab	here`	, match string_ as len { 65535
-: rootA ,} , A { falsey @calculatedFrom(
-    ""CRC32"" ) ,
-    uint8x
-,
-zchar ,} , } , }
-")).
-Eval vm_compute in ("<<<M4194>>>" ++ check (runes_of_ascii "
-packet
-    string_{zchar[ 3 ] 	 // c
-stringy
-@lengthOf(packetx	) `u8 x,` 	 //
-    , // `tick` ""quote"" 'q'
-  f64 
-string_ ``
-	, 
-} 
-MetaData 
-leftPad{
-	char[ 1 ]
-
-    MetaDataX  `crlf
-line`
-
-    ,
-metadata	a1
-
-    `tab	here`,T
-    o
-	`line1
-line2` , 	 // " ++ [128512]%N ++ runes_of_ascii " emoji
-	  o
-	trueish,
-
-} 
-options
-{
-
-    }
-
-    MetaData
-    // @lengthOf(
-
-  T  {Foo
-Logon ,
-	Logon	lengthOf
-	,
-char[ 00 
-]
-
-pack ,
-
-    char[
-
-    7]
-// @lengthOf(
-
-// trailing space 
-	i8i8
-
-    ``
-,
-
-    }
-
-")).
-Eval vm_compute in ("<<<M4113>>>" ++ check (runes_of_ascii "
-// top
-		options // c0
-	{	// c1
-    	charz  // c2
-=  // c3
-	f64 // c4
-; 	 // c5
-    metadata	// c6
-=// c7
-  	7	// c8
-	; // c9
-}  // c10
-  options// c11
-    	{	// c12
-
-	u128 	 // c13
-    =// c14
-
-  10 	 // c15
-  options1  // c16
-	= // c17
-true// c18
-
-;// c19
-  	zchar  // c20
-
-= // c21
-	uint16	// c22
-
-	; // c23
-	lengthOf// c24
-	= 	 // c25
-	true  // c26
-
-;// c27
-	}  // c28
-options// c29
-  { 	 // c30
-  	len // c31
-    =  // c32
-  1 	 // c33
-	}	// c34
-")).
-Eval vm_compute in ("<<<M401>>>" ++ check (runes_of_ascii "// " ++ [128512]%N ++ runes_of_ascii " emoji
-packet
-    roots
-{x_y_z @lengthOf(
-    u128
-) ,
-    @calculatedFrom( ""it's"")match
-a1
-as
-    Pad
-{ ""`tick`"" : x_y_z ,1
-: leftPad 00
-:
-u8x
-7 //x
-:falsey , ""1"" :Packet ,
-//x
-// trailing space 
-""`tick`""
-    : As//x
-}	, @tag(	007 )  char[]MetaDataX ,string chars @calculatedFrom( ""`tick`"" )
-    , } root packet calculatedFrom
-    { repeat zchar[ 255 ] matchKey `doc` , char[ 4294967296 ]  options1 @lengthOf(
-stringy//	t
-) , } // a // b")).
-Eval vm_compute in ("<<<M4480>>>" ++ check (runes_of_ascii "packet roots {
-    repeat u8x `two words`,
-    repeat roots {
-        // " ++ [27880; 37322]%N ++ runes_of_ascii "
-        char[1] Z9_ `it's`,// " ++ [128512]%N ++ runes_of_ascii " emoji
-        char[42] float `" ++ [28040; 24687; 31867; 22411]%N ++ runes_of_ascii "`,
-    },
-    char[] As `a\`,
-    calculatedFrom {
-        repeat uint64 trueish,
-    },
-    repeat i64 MetaDataX,
-    repeat string uint8x `say ""hi""`,
-    _x A `
-    `,
-    @lengthOf(Packet)
-    @tag(7)
-    @leftPad()
-    Header {
-        u128,
-        repeat char[] trueish `a\`,
-    },
-}")).
-Eval vm_compute in ("<<<M218>>>" ++ check (runes_of_ascii "packet lengthOf {
-f64 lengthOf
-@lengthOf(a1
-)
-`" ++ [28040; 24687; 31867; 22411]%N ++ runes_of_ascii "`
-, uint64 Logon `" ++ [233]%N ++ runes_of_ascii "`
-,	string Pad@calculatedFrom( ""\n"" )
-/// triple
-// trailing space 
-,zchar[ 0123456789
-    ] Foo @lengthOf( charz )	`// not a comment` ,
-@rightPad ()match falsey
-    as Packet{ """"
-    :
-u ,
-65535 :
-float ,[  4294967296
-] :	trueish // trailing space 
-,	[10 ,0123456789 ]  :
-Logon , 1 : roots [  7 ,
-""\" ++ [233]%N ++ runes_of_ascii """ , 00
-    //
-    ]:
-float , } ,}
-")).
-Eval vm_compute in ("<<<M1335>>>" ++ check (runes_of_ascii "packet //	t
-metadata
-    /// triple
-    {
-@calculatedFrom( ""a\\""
-) // @lengthOf(
-@rightPad // trailing space 
-( '\x00' ) @rightPad (
-// a // b
-// " ++ [27880; 37322]%N ++ runes_of_ascii "
-'\x00' ) repeat	x	, }
-    MetaData
-T { int32 lengthOf
-// `tick` ""quote"" 'q'
-// packet A { u8 x, }
-, trueish T `` , rootA crc`a\`
-    , Pad A `{ , }`
-, }
-    MetaData
-    float { repeatCount
-string_  `" ++ [233]%N ++ runes_of_ascii "` , }
-    MetaData u128{ a1 BodyLength ,}
-")).
-Eval vm_compute in ("<<<M94>>>" ++ check (runes_of_ascii "options { o =
-    ' ' ; lengthOf= ""it's"" string_= """ ++ [28040; 24687]%N ++ runes_of_ascii """	;i8i8 // c
-=  uint32 } packet Logon{	Pad	@lengthOf(
-    stringy),@rightPad (	'\x00'
-) Header stringy `a\` , T { match	a1
-    as Logon{  42 :
-chars }	, },stringy {
-zchar[ 7 // trailing space 
-] x_y_z, }, uint8x BodyLength
-, repeat zchar ,	@tag( 7 ) repeat // packet A { u8 x, }
-u64 u128`" ++ [28040; 24687; 31867; 22411]%N ++ runes_of_ascii "` // packet A { u8 x, }
-, }")).
-Eval vm_compute in ("<<<M175>>>" ++ check (runes_of_ascii "packet f32a
-{
-    repeat calculatedFrom u128//	t
-,
-    T @calculatedFrom( ""a\\"" ) `crlf
-line` ,
-string /// triple
-charz, @leftPad (
-    //x
-    ) repeat
-pack // a // b
-T
-    ,	}MetaData
-charz { } packet	i8i8{A
-x ,match A
-as
-leftPad { ""abc""	: msg_type , ""a	b""
-    //	t
-    :
-    T }	,f64 i8i8
-    ,
-char charz`" ++ [233]%N ++ runes_of_ascii "`
-    // `tick` ""quote"" 'q'
-    ,} // " ++ [128512]%N ++ runes_of_ascii " emoji")).
-Eval vm_compute in ("<<<M3656>>>" ++ check (runes_of_ascii "options {
-    FixedStringPadFromLeft = true;
-    FixedStringPadChar = ' ';
-}
-packet Reject {
-}
-packet Fill {
-    repeat i16 Tail,
-}
-root packet Trade {
-    float64 Ref,
-    Fill,
-    u8 Note,
-    u16 count @lengthOf(Body),
-    match Note as Body {
-        [98, 101] : Fill,
-        34 : Reject,
-    },
-    u32 x @calculatedFrom(""CR\
-C32""),
-}
-")).
-Eval vm_compute in ("<<<M4281>>>" ++ check (runes_of_ascii "options {
-    // @lengthOf(
-    // " ++ [128512]%N ++ runes_of_ascii " emoji
-    x = 10;
-    x_y_z = true;
-    Logon = i32
-    T = 0
-}
-
-MetaData f32a {
-    zchar len,
-}
-
-options {
-    string_ = zchar[007];
-    x_y_z = '0';
-}
-
-MetaData msg_type {
-    lengthOf msg_type `two words`,
-    i64 crc,
-    packetx zchar `// not a comment`,
-    string falsey `tab	here`,
-}")).
-Eval vm_compute in ("<<<M2021>>>" ++ check (runes_of_ascii "MetaData
-    u { }  options {
-// c
-// @lengthOf(
-float = int8 ;rootA =false ; As =	int16 // `tick` ""quote"" 'q'
-repeatCount
-    // trailing space 
-    =
-    int16
-; u8x =
-    //	t
-    '\x00' ; } options	{
-    repeatCount
-= 0
-u128
-    //
-    = false false ; i64_
-// trailing space 
-// `tick` ""quote"" 'q'
-= '0' ; //	t
-}
-")).
-Eval vm_compute in ("<<<M1871>>>" ++ check (runes_of_ascii "MetaData
-    u { } }  options {
-// c
-// @lengthOf(
-float = int8 ;rootA =false ; As =	int16 // `tick` ""quote"" 'q'
-repeatCount
-    // trailing space 
-    =
-    int16
-; u8x =
-    //	t
-    '\x00' ; } options	{
-    repeatCount
-= 0
-u128
-    //
-    = false ; i64_
-// trailing space 
-// `tick` ""quote"" 'q'
-= '0' ; //	t
-}
-")).
-Eval vm_compute in ("<<<M3867>>>" ++ check (runes_of_ascii "// `tick` ""quote"" 'q'
-MetaData pack {
-    string MetaDataX,//
-    zchar[65535] i8i8,
-    pack rootA `say ""hi""`,
-    string_ Header `crlf
-        line`,
-    int64 string_,
-    /// triple
-    //	t
-    char[] packetx,
-}
-
-options {
-    trueish = ' ';
-    i64_ = i16
-    pack = u16;
-    len = false
-}
-
-MetaData i64_ {
-}")).
-Eval vm_compute in ("<<<M1933>>>" ++ check (runes_of_ascii "MetaData
-    u { }  options {
-// c
-// @lengthOf(
-float = int8 ;rootA =false ; As :	int16 // `tick` ""quote"" 'q'
-repeatCount
-    // trailing space 
-    =
-    int16
-; u8x =
-    //	t
-    '\x00' ; } options	{
-    repeatCount
-= 0
-u128
-    //
-    = false ; i64_
-// trailing space 
-// `tick` ""quote"" 'q'
-= '0' ; //	t
-}
-")).
-Eval vm_compute in ("<<<M1860>>>" ++ check (runes_of_ascii "MetaData
-     { }  options {
-// c
-// @lengthOf(
-float = int8 ;rootA =false ; As =	int16 // `tick` ""quote"" 'q'
-repeatCount
-    // trailing space 
-    =
-    int16
-; u8x =
-    //	t
-    '\x00' ; } options	{
-    repeatCount
-= 0
-u128
-    //
-    = false ; i64_
-// trailing space 
-// `tick` ""quote"" 'q'
-= '0' ; //	t
-}
-")).
-Eval vm_compute in ("<<<M1960>>>" ++ check (runes_of_ascii "MetaData
-    u { }  options {
-// c
-// @lengthOf(
-float = int8 ;rootA =false ; As =	int16 // `tick` ""quote"" 'q'
-repeatCount
-    // trailing space 
-    =
-    int16
-;  =
-    //	t
-    '\x00' ; } options	{
-    repeatCount
-= 0
-u128
-    //
-    = false ; i64_
-// trailing space 
-// `tick` ""quote"" 'q'
-= '0' ; //	t
-}
-")).
-Eval vm_compute in ("<<<M3978>>>" ++ check (runes_of_ascii "packet A {
-    u8 a,
-}
-
-packet B {
-    u16 b,
-}
-
-packet C {
-    u32 c,
-}
-
-root packet M {
-    u16 Kc,
-    u16 Kb,
-    u16 Ka,
-    match Kc as X {
-        9 : A,
-        10 : B,
-    },
-    match Kb as Y {
-        2 : C,
-        1 : A,
-    },
-    match Ka as Z {
-        1 : B,
-    },
-    A,
-    B,
-    C,
-}")).
-Eval vm_compute in ("<<<M1283>>>" ++ check (runes_of_ascii "MetaData  T {
-} root packet MetaDataX {
-// packet A { u8 x, }
-// `tick` ""quote"" 'q'
-@lengthOf( trueish
-)repeat
-//
-//	t
-BodyLength ``  , }MetaData
-    A // `tick` ""quote"" 'q'
-{ float32 trueish , } packet
-o
-    //x
-    {
-    @lengthOf( Foo)  i8i8 stringy
-    ,}MetaData trueish	{
-    string o , }")).
-Eval vm_compute in ("<<<M782>>>" ++ check (runes_of_ascii "root packet
-    i8i8
-{ i8 crc,
-    // @lengthOf(
-    @rightPad () uint64 u128`two words`
-//
-//	t
-,//	t
-uint64
-_x	`{ , }` ,
-// c
-//x
-} options {
-As =""abc""leftPad
-// " ++ [128512]%N ++ runes_of_ascii " emoji
-/// triple
-= ""CRC32""
-charz =	char[ 65535 ] //	t
-;x_y_z // trailing space 
-= true ; }// @lengthOf(
-options { }
-")).
-Eval vm_compute in ("<<<M3861>>>" ++ check (runes_of_ascii "root packet pack {
-    match Pad as f32a {
-        [""""] : leftPad,
-        [""" ++ [233]%N ++ runes_of_ascii "t" ++ [233]%N ++ runes_of_ascii """, 007] : f32a,
-        65535 : body,
-        // @lengthOf(
-        10 : u128,
-        42 : pack,
-    },
-}
-
-options {
-    // " ++ [27880; 37322]%N ++ runes_of_ascii "
-    o = f64;
-    x_y_z = u32
-    len = 42;
-    falsey = true;
-}")).
-Eval vm_compute in ("<<<M1568>>>" ++ check (runes_of_ascii "packet
-//	t
-// trailing space 
-_x {
-// packet A { u8 x, }
-// c
-char[
-3
-    ] u8x @lengthOf(
-u8x ) , @calculatedFrom(""" ++ [128512]%N ++ runes_of_ascii """ // @lengthOf(
-)
-i16	Foo
-@lengthOf( @lengthOf(	string_
-    )`doc`	, repeat	i64 metadata , @lengthOf( string_
-) i8 // c
-u  `line1
-line2`	,
-}
-")).
-Eval vm_compute in ("<<<M2039>>>" ++ check (runes_of_ascii "MetaData
-    u { }  options {
-// c
-// @lengthOf(
-float = int8 ;rootA =false ; As =	int16 // `tick` ""quote"" 'q'
-repeatCount
-    // trailing space 
-    =
-    int16
-; u8x =
-    //	t
-    '\x00' ; } options	{
-    repeatCount
-= 0
-u128
-    //
-    = false ; i64_")).
-Eval vm_compute in ("<<<M1588>>>" ++ check (runes_of_ascii "packet
-//	t
-// trailing space 
-_x {
-// packet A { u8 x, }
-// c
-char[
-3
-    ] u8x @lengthOf(
-u8x ) , @calculatedFrom(""" ++ [128512]%N ++ runes_of_ascii """ // @lengthOf(
-)
-i16	Foo
-@lengthOf(	string_
-    )`doc`	, , repeat	i64 metadata , @lengthOf( string_
-) i8 // c
-u  `line1
-line2`	,
-}
-")).
-Eval vm_compute in ("<<<M1490>>>" ++ check (runes_of_ascii "_x
-//	t
-// trailing space 
-packet {
-// packet A { u8 x, }
-// c
-char[
-3
-    ] u8x @lengthOf(
-u8x ) , @calculatedFrom(""" ++ [128512]%N ++ runes_of_ascii """ // @lengthOf(
-)
-i16	Foo
-@lengthOf(	string_
-    )`doc`	, repeat	i64 metadata , @lengthOf( string_
-) i8 // c
-u  `line1
-line2`	,
-}
-")).
-Eval vm_compute in ("<<<M1634>>>" ++ check (runes_of_ascii "packet
-//	t
-// trailing space 
-_x {
-// packet A { u8 x, }
-// c
-char[
-3
-    ] u8x @lengthOf(
-u8x ) , @calculatedFrom(""" ++ [128512]%N ++ runes_of_ascii """ // @lengthOf(
-)
-i16	Foo
-@lengthOf(	string_
-    )`doc`	, repeat	i64 metadata , @lengthOf( string_
-) i8 // c
-`line1
-line2`  u	,
-}
-")).
-Eval vm_compute in ("<<<M1517>>>" ++ check (runes_of_ascii "packet
-//	t
-// trailing space 
-_x {
-// packet A { u8 x, }
-// c
-char[
-3
-    ]  @lengthOf(
-u8x ) , @calculatedFrom(""" ++ [128512]%N ++ runes_of_ascii """ // @lengthOf(
-)
-i16	Foo
-@lengthOf(	string_
-    )`doc`	, repeat	i64 metadata , @lengthOf( string_
-) i8 // c
-u  `line1
-line2`	,
-}
-")).
-Eval vm_compute in ("<<<M1213>>>" ++ check (runes_of_ascii "options { string_ = char[] ;
-}
-packet Z9_
-{
-// " ++ [27880; 37322]%N ++ runes_of_ascii "
-// a // b
-@tag( 1 ) matchKey matchKey
-    ,
-}	root packet
-    // `tick` ""quote"" 'q'
-    Z9_ {	@leftPad
-    ( '\x00' ) @rightPad // " ++ [27880; 37322]%N ++ runes_of_ascii "
-(
-'\x00'// packet A { u8 x, }
-)
-float64 chars `it's` , }")).
-Eval vm_compute in ("<<<M1230>>>" ++ check (runes_of_ascii "root packet roots { } // `tick` ""quote"" 'q'
-MetaData As
-{ string u
-`{ , }` ,	zchar[ 3 ]
-x_y_z, i32 roots ,
-u16 rootA
-    `line1
-line2` ,
-// `tick` ""quote"" 'q'
-// a // b
-i32// @lengthOf(
-matchKey
-    `doc`, u _x //	t
-`{ , }` , }
-")).
-Eval vm_compute in ("<<<M2014>>>" ++ check (runes_of_ascii "MetaData
-    u { }  options {
-// c
-// @lengthOf(
-float = int8 ;rootA =false ; As =	int16 // `tick` ""quote"" 'q'
-repeatCount
-    // trailing space 
-    =
-    int16
-; u8x =
-    //	t
-    '\x00' ; } options	{
-    repeatCount
-= 0")).
-Eval vm_compute in ("<<<M1626>>>" ++ check (runes_of_ascii "packet
-//	t
-// trailing space 
-_x {
-// packet A { u8 x, }
-// c
-char[
-3
-    ] u8x @lengthOf(
-u8x ) , @calculatedFrom(""" ++ [128512]%N ++ runes_of_ascii """ // @lengthOf(
-)
-i16	Foo
-@lengthOf(	string_
-    )`doc`	, repeat	i64 metadata , @lengthOf( string_")).
-Eval vm_compute in ("<<<M115>>>" ++ check (runes_of_ascii "
-MetaData stringy
-{
-    i16
-    f32a , string  crc `crlf
-line`
-, f32 o `doc` , float64
-calculatedFrom , }	packet o
-{ @leftPad // `tick` ""quote"" 'q'
-( )string_
-    @lengthOf(packetx // `tick` ""quote"" 'q'
-), }
-")).
-Eval vm_compute in ("<<<M818>>>" ++ check (runes_of_ascii "packet calculatedFrom{ body, } packet Packet {repeat
-    _x // a // b
-asx ,@tag(
-3 )
-    @calculatedFrom(
-""" ++ [128512]%N ++ runes_of_ascii """
-)
-    char[3 ]
-    body, f64
-    MetaDataX `u8 x,` ,
-    //x
-    @tag(0 )repeat
-    roots i8i8 ,	}")).
-Eval vm_compute in ("<<<M1797>>>" ++ check (runes_of_ascii "options { trueish = ""`tick`"" ; string_= """ ++ [233]%N ++ runes_of_ascii "t" ++ [233]%N ++ runes_of_ascii """
-    // c
-    } root
-    packet body { stringy @calculatedFrom(
-""a	b"" ) `line1
-line2` , }
-packet Logon {
-    @leftPad( (
-    ' ' ) //	t
-u16 string_ `u8 x,` ,
-}
-")).
-Eval vm_compute in ("<<<M1688>>>" ++ check (runes_of_ascii "options { trueish ""`tick`"" = ; string_= """ ++ [233]%N ++ runes_of_ascii "t" ++ [233]%N ++ runes_of_ascii """
-    // c
-    } root
-    packet body { stringy @calculatedFrom(
-""a	b"" ) `line1
-line2` , }
-packet Logon {
-    @leftPad(
-    ' ' ) //	t
-u16 string_ `u8 x,` ,
-}
-")).
-Eval vm_compute in ("<<<M1823>>>" ++ check (runes_of_ascii "options { trueish = ""`tick`"" ; string_= """ ++ [233]%N ++ runes_of_ascii "t" ++ [233]%N ++ runes_of_ascii """
-    // c
-    } root
-    packet body { stringy @calculatedFrom(
-""a	b"" ) `line1
-line2` , }
-packet Logon {
-    @leftPad(
-    ' ' ) //	t
-u16 string_ , `u8 x,`
-}
-")).
-Eval vm_compute in ("<<<M1714>>>" ++ check (runes_of_ascii "options { trueish = ""`tick`"" ; string_= (
-    // c
-    } root
-    packet body { stringy @calculatedFrom(
-""a	b"" ) `line1
-line2` , }
-packet Logon {
-    @leftPad(
-    ' ' ) //	t
-u16 string_ `u8 x,` ,
-}
-")).
-Eval vm_compute in ("<<<M1821>>>" ++ check (runes_of_ascii "options { trueish = ""`tick`"" ; string_= """ ++ [233]%N ++ runes_of_ascii "t" ++ [233]%N ++ runes_of_ascii """
-    // c
-    } root
-    packet body { stringy @calculatedFrom(
-""a	b"" ) `line1
-line2` , }
-packet Logon {
-    @leftPad(
-    ' ' ) //	t
-u16 string_  ,
-}
-")).
-Eval vm_compute in ("<<<M886>>>" ++ check (runes_of_ascii "packet tag	{ BodyLength
-    // @lengthOf(
-    @lengthOf( options1
+@calculatedFrom( ""packet""
     )
-,} options
-{trueish
-    = ""a\\""	matchKey
-= 0123456789 // trailing space 
-;
-    BodyLength = '\x00' charz = """ ++ [233]%N ++ runes_of_ascii "t" ++ [233]%N ++ runes_of_ascii """
-; }
-")).
-Eval vm_compute in ("<<<M1601>>>" ++ check (runes_of_ascii "packet
-//	t
-// trailing space 
-_x {
-// packet A { u8 x, }
-// c
-char[
-3
-    ] u8x @lengthOf(
-u8x ) , @calculatedFrom(""" ++ [128512]%N ++ runes_of_ascii """ // @lengthOf(
+
+    @calculatedFrom(	""\n""
 )
-i16	Foo
-@lengthOf(	string_
-    )`doc`	, repeat")).
-Eval vm_compute in ("<<<M1596>>>" ++ check (runes_of_ascii "packet
-//	t
-// trailing space 
-_x {
-// packet A { u8 x, }
-// c
-char[
-3
-    ] u8x @lengthOf(
-u8x ) , @calculatedFrom(""" ++ [128512]%N ++ runes_of_ascii """ // @lengthOf(
+
+    Packet
+
+    @calculatedFrom( 
+""\" ++ [233]%N ++ runes_of_ascii """ 
 )
-i16	Foo
-@lengthOf(	string_
-    )`doc`	,")).
-Eval vm_compute in ("<<<M4371>>>" ++ check (runes_of_ascii "packet zchar {
-    @calculatedFrom(""// no comment"")
-    i32 x_y_z,
-}
 
-options {
-    int = i8;
-    MetaDataX = char[];
-    Logon = false;
-    roots = 0//
-    Pad = false;
-}")).
-Eval vm_compute in ("<<<M392>>>" ++ check (runes_of_ascii "
-root
-packet
-calculatedFrom
-/// triple
-// packet A { u8 x, }
-{ i64_
-    // @lengthOf(
-    Packet `a\` ,
-zchar[ 42] Foo@lengthOf(
-tag) /// triple
-`crlf
-line`
-, }
-")).
-Eval vm_compute in ("<<<M4240>>>" ++ check (runes_of_ascii "// top
-MetaData float {
-    // c2
-    float64 charz `
-        `,// c6
-}// c7
-
-root packet chars {
-    // c11
-    @rightPad('0')
-    // c15
-    Foo,// c17
-}// c18")).
-Eval vm_compute in ("<<<M1315>>>" ++ check (runes_of_ascii "/// triple
-MetaData T {
-    string_ falsey `u8 x,`, // packet A { u8 x, }
-matchKey chars `u8 x,`, calculatedFrom
-f32a `doc` ,
-/// triple
-// trailing space 
-}")).
-Eval vm_compute in ("<<<M2399>>>" ++ check (runes_of_ascii "// c
-packet x { @lengthOf( metadata ) repeat lengthOf
-,a1{ {
-trueish	,// c
-repeat//	t
-MetaDataX , } , zchar[
-    42	] rootA // `tick` ""quote"" 'q'
-,
-    }
-")).
-Eval vm_compute in ("<<<M2140>>>" ++ check (runes_of_ascii "options{
-_x
-= true
-} options
-{ o	= /// triple
-false
-    ; chars
-= = ""\n"" } root packet	Pad
-/// triple
-// packet A { u8 x, }
-{	chars
-    // a // b
-    ,}")).
-Eval vm_compute in ("<<<M2191>>>" ++ check (runes_of_ascii "options{
-_x
-= true
-} options
-/{ o	= /// triple
-false
-    ; chars
-= ""\n"" } root packet	Pad
-/// triple
-// packet A { u8 x, }
-{	chars
-    // a // b
-    ,}")).
-Eval vm_compute in ("<<<M2116>>>" ++ check (runes_of_ascii "options{
-_x
-= true
-} options
-{ =	o /// triple
-false
-    ; chars
-= ""\n"" } root packet	Pad
-/// triple
-// packet A { u8 x, }
-{	chars
-    // a // b
-    ,}")).
-Eval vm_compute in ("<<<M2114>>>" ++ check (runes_of_ascii "options{
-_x
-= true
-} options
-{ 	= /// triple
-false
-    ; chars
-= ""\n"" } root packet	Pad
-/// triple
-// packet A { u8 x, }
-{	chars
-    // a // b
-    ,}")).
-Eval vm_compute in ("<<<M3675>>>" ++ check (runes_of_ascii "packet A {
-    match k as n {
-        [
-            ""a"", ""bb"", ""c c"", ""d"", ""e"",
-            ""f"", ""g"", ""h"", ""i""
-        ] : B,
-        2 : C,
-    },
-}")).
-Eval vm_compute in ("<<<M2384>>>" ++ check (runes_of_ascii "// c
-packet x { @lengthOf( metadata ) repeat lengthOf
-,a1{
-trueish	,// c
-repeat//	t
-MetaDataX , } , zchar[
-    42	] rootA // `tick` ""quote"" 'q'
-,")).
-Eval vm_compute in ("<<<M4286>>>" ++ check (runes_of_ascii "
-packet A
-    {	match	k	as n {  [ 
-""a""
-	,
-
-    ""bb"" 
-, ""c c"" 
-,""d""	,
-""e""	,""f"", 
-""g""
+`" ++ [28040; 24687; 31867; 22411]%N ++ runes_of_ascii "`
 
     , 
-""h"" , ""i"",	""j""
-    ] : 
-B  2  :
+@leftPad (  '\x00')
+@leftPad
+	( )  @rightPad (
 
-C
+)
+repeat
 
-    } ,} ")).
-Eval vm_compute in ("<<<M324>>>" ++ check (runes_of_ascii "MetaData metadata {
-//x
-// " ++ [128512]%N ++ runes_of_ascii " emoji
+    string_{	match
+	asx // c
+  as rootA
+    {
+[  ""`tick`""
+    ,
+65535
+    ] 
+:falsey ,
+    }
+,
+	trueish , 
+char
+    Z9_
+`// not a comment`
+	,  Packet
+
+Logon
+
+    `{ , }` ,}
+
+,
+	@tag( 1	)
+
+match x
+	as
+pack	//	t
+
+	{
+    1: stringy// `tick` ""quote"" 'q'
+	  ,
+	[  42  ]
+:x 
 }
-    root packet chars {
-    @lengthOf(Packet
-    // @lengthOf(
-    ) // c
-repeat int16 roots `
-` ,	}")).
-Eval vm_compute in ("<<<M3960>>>" ++ check (runes_of_ascii "
 
-  packet
-A { 
-u16
-    len@lengthOf(  body)`a
-    b
-  c`  ,u32
-	crc@calculatedFrom(
-""CRC32""
+,  repeat//x
+	i8 u8x , @calculatedFrom(""packet""  )
 
-)	`a
-    b
-  c`, string
-	body 
+string_ 	 // c
+	@lengthOf(
+
+rootA 
+)
+    ,
+
+    falsey
+
+@lengthOf(	x ),
+	}
+    options
+
+    {
+}
+
+    root
+
+    packet
+u	{@lengthOf(
+x_y_z )
+u
+	@calculatedFrom(
+	"""" 
+) `two words`
+
+    ,
+
+} ")).
+Eval vm_compute in ("<<<M77>>>" ++ check (runes_of_ascii "  options
+{  T
+= ' ' }
+MetaData Pad
+    //x
+    {
+string_ u128  , u64 // @lengthOf(
+uint8x `two words` , int8 repeatCount
+, }
+    packet
+len{
+    Packet
+    `
+`
+,@calculatedFrom( ""a\""b""
+) zchar[
+    42 ]
+rootA ,
+    @calculatedFrom(
+""packet"" )
+@calculatedFrom( ""\n"" ) Packet @calculatedFrom( ""\" ++ [233]%N ++ runes_of_ascii """  )
+    `" ++ [28040; 24687; 31867; 22411]%N ++ runes_of_ascii "`, @leftPad
+    (
+    '\x00' )
+@leftPad (	)
+@rightPad (
+)
+repeat string_
+    {match asx // c
+as rootA {[
+""`tick`"",65535	]:
+falsey ,} , trueish
+, char Z9_`// not a comment` ,
+    Packet Logon `{ , }`, } ,@tag( 1 )
+    match x as pack//	t
+{
+1 :stringy // `tick` ""quote"" 'q'
+, [	42 ]:  x }  ,
+repeat//x
+i8 u8x , @calculatedFrom(""packet"") string_ // c
+@lengthOf( rootA ),	falsey
+@lengthOf( x )
+,} options
+{}
+root packet u { @lengthOf(x_y_z )	u
+    @calculatedFrom( """"
+)
+`two words`, }")).
+Eval vm_compute in ("<<<M57>>>" ++ check (runes_of_ascii "root
+packet string_{ i32 uint8x @calculatedFrom( ""\" ++ [233]%N ++ runes_of_ascii """ ) , body ,@tag(// a // b
+0  ) Z9_
+    @calculatedFrom(
+""" ++ [28040; 24687]%N ++ runes_of_ascii """),
+@lengthOf( stringy	)  falsey
+    { repeat trueish { u64 i8i8 , }
+,  } ,
+char[] leftPad
+@lengthOf( falsey
+    // c
+    ),	@calculatedFrom(	""a	b""
+    )
+//x
+// " ++ [27880; 37322]%N ++ runes_of_ascii "
+char[]  BodyLength,//x
+match
+falsey as crc{255 :falsey ,[
+//x
+// @lengthOf(
+7,7] // @lengthOf(
+:
+//
+//x
+crc, ""a	b""// `tick` ""quote"" 'q'
+: i8i8,255  : a1
+, } ,Logon@lengthOf( _x // `tick` ""quote"" 'q'
+)
+, match	lengthOf as  o{ ""packet"" :	x_y_z ,} , } options
+{
+//	t
+// `tick` ""quote"" 'q'
+calculatedFrom
+=
+""// no comment""  ;
+    x
+    ='\x00' a1
+= ""abc"" ; x_y_z=
+65535 ; } packet Foo
+{ } packet o { }")).
+Eval vm_compute in ("<<<M359>>>" ++ check (runes_of_ascii "  root
+    packet o
+{ a1 a1	, char[
+3 ] i8i8 `
+` , @calculatedFrom( ""a\""b"" )// packet A { u8 x, }
+repeat /// triple
+Pad
+    , }
+// `tick` ""quote"" 'q'
+// `tick` ""quote"" 'q'
+packet
+    tag{ i8i8 @calculatedFrom( ""x y"" )
+`it's`
+, @lengthOf(x_y_z
+) @calculatedFrom(
+//
+//	t
+""a\""b""
+    ) u {
+match	a1 as
+    Logon { ""\n"" : Pad
+,3
+:	body , """"
+:// `tick` ""quote"" 'q'
+Logon ,
+""\n"" : T
+, ""`tick`""
+:
+    tag ,
+[ """ ++ [233]%N ++ runes_of_ascii "t" ++ [233]%N ++ runes_of_ascii """/// triple
+,
+7,
+""a\""b""	, 0123456789
+,""abc"" , """ ++ [28040; 24687]%N ++ runes_of_ascii """ ,0 ] : Z9_
+    },
+    char[ 00  ]//
+string_@lengthOf( asx ), char[
+    1 ]falsey , } ,match	crc
+as
+    lengthOf {
+    4294967296 : a1
+}, }
+")).
+Eval vm_compute in ("<<<M1117>>>" ++ check (runes_of_ascii "// top
+options
+    // c0
+{
+    // c1
+charz
+    // c2
+=
+    // c3
+f64
+    // c4
+;
+    // c5
+metadata
+    // c6
+=
+    // c7
+7
+    // c8
+;
+    // c9
+}
+    // c10
+options
+    // c11
+{
+    // c12
+u128
+    // c13
+=
+    // c14
+10
+    // c15
+options1
+    // c16
+=
+    // c17
+true
+    // c18
+;
+    // c19
+zchar
+    // c20
+=
+    // c21
+uint16
+    // c22
+;
+    // c23
+lengthOf
+    // c24
+=
+    // c25
+true
+    // c26
+;
+    // c27
+}
+    // c28
+options
+    // c29
+{
+    // c30
+len
+    // c31
+=
+    // c32
+1
+    // c33
+}
+    // c34
+")).
+Eval vm_compute in ("<<<M2099>>>" ++ check (runes_of_ascii "options {
+    LittleEndian = true;
+    StringPrefixLenType = u16;
+    ArrayPrefixLenType = u64;
+}
+
+packet Fill {
+}
+
+packet Logon {
+    repeat char[3] Tail,
+    zchar[6] venue,
+    repeat string Side2,
+}
+
+root packet Cancel {
+    char[] Flags,
+    char[] OrderId,
+    zchar[6] msgKind,
+    Fill,
+    char[] Acct,
+    u8 f1,
+    match f1 as Body {
+        188 : Fill,
+        5 : Logon,
+    },
+    u32 clOrdID @calculatedFrom(""CR\
+        C32""),
+}")).
+Eval vm_compute in ("<<<M122>>>" ++ check (runes_of_ascii "
+packet  u
+    //	t
+    {uint32 metadata	,	@lengthOf( metadata // " ++ [27880; 37322]%N ++ runes_of_ascii "
+)
+// `tick` ""quote"" 'q'
+// c
+repeat Logon
+    ,x_y_z// a // b
+, @lengthOf(
+    tag )
+// " ++ [128512]%N ++ runes_of_ascii " emoji
+// c
+float msg_type	,}MetaData chars { u8x
+    matchKey
+// " ++ [27880; 37322]%N ++ runes_of_ascii "
+//x
+,
+    uint8
+    x_y_z `u8 x,`, zchar x_y_z `doc` ,	char i64_ `a\` ,f32 tag//	t
+, } MetaData _x {
+// trailing space 
+// `tick` ""quote"" 'q'
+} options { }
+")).
+Eval vm_compute in ("<<<M1786>>>" ++ check (runes_of_ascii "
+root packet
+
+    roots
+{@tag(	7// `tick` ""quote"" 'q'
+    )int64 A 
+,}
+    //
+	//
+	packet
+u128
+// a // b
+
+  {
+
+    msg_type
+    Pad `line1
+line2` ,
+
+    }options
+    {crc =""\" ++ [233]%N ++ runes_of_ascii """
+;  }root packet
+
+    _x	{ @lengthOf(
+pack// " ++ [27880; 37322]%N ++ runes_of_ascii "
+      )i16 MetaDataX 
+, calculatedFrom
+	{	packetx
+
+@lengthOf(	BodyLength
+)`{ , }` ,  }	// a // b
+    ,
+}
+
+")).
+Eval vm_compute in ("<<<M1432>>>" ++ check (runes_of_ascii "// top
+packet // c0
+float // c1
+{ // c2
+repeat // c3
+i8i8 // c4
+MetaDataX // c5
+`it's` // c6
+, // c7
+rootA // c8
+, // c9
+repeat // c10
+int8 // c11
+int // c12
+, // c13
+match // c14
+repeatCount // c15
+as // c16
+x_y_z // c17
+{ // c18
+""{,}"" // c19
+: // c20
+Logon // c21
+, // c22
+} // c23
+, // c24
+} // c25
+")).
+Eval vm_compute in ("<<<M1120>>>" ++ check (runes_of_ascii "// top
+packet
+    // c0
+metadata
+    // c1
+{
+    // c2
+Logon
+    // c3
+{
+    // c4
+A
+    // c5
+`" ++ [28040; 24687; 31867; 22411]%N ++ runes_of_ascii "`
+    // c6
+,
+    // c7
+tag
+    // c8
+o
+    // c9
+,
+    // c10
+}
+    // c11
+,
+    // c12
+zchar
+    // c13
+len
+    // c14
+`// not a comment`
+    // c15
+,
+    // c16
+}
+    // c17
+")).
+Eval vm_compute in ("<<<M646>>>" ++ check (runes_of_ascii "root packet tag { }  packet MetaDataX{char[007	]
+// c
+/// triple
+asx  @calculatedFrom( ""a\""b""
+) `say ""hi""`// " ++ [27880; 37322]%N ++ runes_of_ascii "
+,  @tag(4294967296 )
+    char[1//x
+] packetx @calculatedFrom(""a\""b""
+    ) ,
+// " ++ [128512]%N ++ runes_of_ascii " emoji
+// a // b
+@calculatedFrom(""" ++ [233]%N ++ runes_of_ascii "t" ++ [233]%N ++ runes_of_ascii """  ) repeat pack // " ++ [27880; 37322]%N ++ runes_of_ascii "
+@tag(
+    } // c")).
+Eval vm_compute in ("<<<M292>>>" ++ check (runes_of_ascii "options { asx = ""{,}"" } packet len{repeat	float
+    As, char[] Packet ,
+i8 body @lengthOf( T
+) //
+,
+}// @lengthOf(
+packet
+    Pad {uint32
+u8x // packet A { u8 x, }
+, /// triple
+@tag( 4294967296 ) @tag(65535)
+@rightPad(
+    )rootA
+    trueish `{ , }`
+    ,
+    } 	 ")).
+Eval vm_compute in ("<<<M545>>>" ++ check (runes_of_ascii "root packet tag { }  packet MetaDataX{char[007	]
+// c
+/// triple
+asx  @calculatedFrom( )
+""a\""b"" `say ""hi""`// " ++ [27880; 37322]%N ++ runes_of_ascii "
+,  @tag(4294967296 )
+    char[1//x
+] packetx @calculatedFrom(""a\""b""
+    ) ,
+// " ++ [128512]%N ++ runes_of_ascii " emoji
+// a // b
+@calculatedFrom(""" ++ [233]%N ++ runes_of_ascii "t" ++ [233]%N ++ runes_of_ascii """  ) repeat pack // " ++ [27880; 37322]%N ++ runes_of_ascii "
+,
+    } // c")).
+Eval vm_compute in ("<<<M613>>>" ++ check (runes_of_ascii "root packet tag { }  packet MetaDataX{char[007	]
+// c
+/// triple
+asx  @calculatedFrom( ""a\""b""
+) `say ""hi""`// " ++ [27880; 37322]%N ++ runes_of_ascii "
+,  @tag(4294967296 )
+    char[1//x
+] packetx @calculatedFrom(""a\""b""
+    ) 
+// " ++ [128512]%N ++ runes_of_ascii " emoji
+// a // b
+@calculatedFrom(""" ++ [233]%N ++ runes_of_ascii "t" ++ [233]%N ++ runes_of_ascii """  ) repeat pack // " ++ [27880; 37322]%N ++ runes_of_ascii "
+,
+    } // c")).
+Eval vm_compute in ("<<<M671>>>" ++ check (runes_of_ascii "root packet tag { }  packet MetaDataX{char[007	]
+// c
+/// triple
+asx  @calculatedFrom( ""a\""b""
+) `say ""hi""`// " ++ [27880; 37322]%N ++ runes_of_ascii "
+,  @tag(4294967296 )
+    char[1//x
+] x" ++ [178]%N ++ runes_of_ascii " @calculatedFrom(""a\""b""
+    ) ,
+// " ++ [128512]%N ++ runes_of_ascii " emoji
+// a // b
+@calculatedFrom(""" ++ [233]%N ++ runes_of_ascii "t" ++ [233]%N ++ runes_of_ascii """  ) repeat pack // " ++ [27880; 37322]%N ++ runes_of_ascii "
+,
+    } // c")).
+Eval vm_compute in ("<<<M1959>>>" ++ check (runes_of_ascii "// top
+packet float {
+    // c2
+    repeat i8i8 MetaDataX `it's`,
+    // c7
+    rootA,
+    // c9
+    repeat int8 int,
+    // c13
+    match repeatCount as x_y_z {
+        // c18
+        ""{,}"" : Logon,
+        // c22
+    },
+    // c24
+}
+// c25")).
+Eval vm_compute in ("<<<M1448>>>" ++ check (runes_of_ascii "// top
+packet // c0a
+  // c0b
+Inner // c1
+{ // c2
+u8 a // c4a
+  // c4b
+, // c5a
+  // c5b
+} root // c7a
+  // c7b
+packet
+    // c8
+P
+    // c9
+{ repeat Inner items // c13a
+  // c13b
+, // c14
+u8 x
+    // c16
+, // c17
+} ")).
+Eval vm_compute in ("<<<M110>>>" ++ check (runes_of_ascii "packet i64_
+{	@tag( // a // b
+0123456789) x_y_z@calculatedFrom( ""it's"" ) , @rightPad ( ' ' ) @tag( 007
+    ) leftPad {
+    zchar[00 ]Pad , }
+,int32 _x@lengthOf( BodyLength
+/// triple
+//
+) ,
+}
+")).
+Eval vm_compute in ("<<<M372>>>" ++ check (runes_of_ascii "MetaData // " ++ [128512]%N ++ runes_of_ascii " emoji
+chars { int64 metadata	,
+char[00] stringy
+//
+// c
+,
+    f64 Foo ,} options {	} options {As = char[ 4294967296
+]A =
+""x y""options1=	float32 Logon =  '\x00' ;	}
+")).
+Eval vm_compute in ("<<<M2118>>>" ++ check (runes_of_ascii "MetaData stringy {
+    i16 f32a,
+    string crc `crlf
+    line`,
+    f32 o `doc`,
+    float64 calculatedFrom,
+}
+
+packet o {
+    @leftPad()
+    string_ @lengthOf(packetx),
+}")).
+Eval vm_compute in ("<<<M474>>>" ++ check (runes_of_ascii "packet
+    // `tick` ""quote"" 'q'
+    crc
+// packet A { u8 x, }
+//	t
+{
+u32 a1 ,
+    // trailing space 
+    roots
+charz //
+`two words`,	}
+    MetaData int {
+} /// triple|")).
+Eval vm_compute in ("<<<M697>>>" ++ check (runes_of_ascii "root packet len // trailing space 
+{
+// " ++ [27880; 37322]%N ++ runes_of_ascii "
+//	t
+char[10
+] metadata	@lengthOf( o ) `crlf
+line`,
+    (
+@rightPad ' '
+) string
+    Header @calculatedFrom( ""a\\""
+    ), }
+")).
+Eval vm_compute in ("<<<M389>>>" ++ check (runes_of_ascii "packet
+    // `tick` ""quote"" 'q'
+    
+// packet A { u8 x, }
+//	t
+{
+u32 a1 ,
+    // trailing space 
+    roots
+charz //
+`two words`,	}
+    MetaData int {
+} /// triple")).
+Eval vm_compute in ("<<<M1994>>>" ++ check (runes_of_ascii "//
+	packet int  { @leftPad(
+'\x00'  ) 
+MetaDataX
+	@lengthOf(
+u128 
+)
+	, u	a1 `doc` , @calculatedFrom(
+""a\""b"" )
+
+i16 repeatCount // @lengthOf(
+  	`tab	here`
+	, }")).
+Eval vm_compute in ("<<<M597>>>" ++ check (runes_of_ascii "root packet tag { }  packet MetaDataX{char[007	]
+// c
+/// triple
+asx  @calculatedFrom( ""a\""b""
+) `say ""hi""`// " ++ [27880; 37322]%N ++ runes_of_ascii "
+,  @tag(4294967296 )
+    char[1//x
+]")).
+Eval vm_compute in ("<<<M1716>>>" ++ check (runes_of_ascii "
+packet A
+{ match k
+	as  n
+{
+[ 1 ,
+    22
+	,
+	""c c"" 
+,4
+
 ,
 
-}
+    5
+,	""f""
+	,  7
+,
+    8 
+,	""i""
+
+,
+
+10
+	]
+
+:B
+    2
+:
+
+    C }
+	,
+	} ")).
+Eval vm_compute in ("<<<M335>>>" ++ check (runes_of_ascii "MetaData u { BodyLength repeatCount // packet A { u8 x, }
+,
+} options {
+string_
+= false ; i8i8=10 ;}
+    root packet float { } //")).
+Eval vm_compute in ("<<<M1269>>>" ++ check (runes_of_ascii "root packet matchKey { zchar[ 3 ] pack @calculatedFrom( ""a	b"" ) `doc` , } options { } MetaData A { int8 msg_type , } // c
 ")).
-Eval vm_compute in ("<<<M954>>>" ++ check (runes_of_ascii "packet Z9_ {
-@tag(
-    00	)
-    @tag(7) @lengthOf(
-    //x
-    Logon)zchar[
-0123456789
-]
-x_y_z@calculatedFrom( ""a\\""  ) , }
-")).
-Eval vm_compute in ("<<<M4564>>>" ++ check (runes_of_ascii "root packet matchKey {
-    zchar[3] pack @calculatedFrom(""a	b"") `doc`,
-}
-
-options {
-}
-
-MetaData A {
-    int8 msg_type,
-}// c")).
-Eval vm_compute in ("<<<M3313>>>" ++ check (runes_of_ascii "root
+Eval vm_compute in ("<<<M1248>>>" ++ check (runes_of_ascii "root packet matchKey { zchar[ 3 ] pack @calculatedFrom( ""a	b"" ) `doc` ,
 // c
-packet matchKey { zchar[ 3 ] pack @calculatedFrom( ""a	b"" ) `doc` , } options { } MetaData A { int8 msg_type , }")).
-Eval vm_compute in ("<<<M3345>>>" ++ check (runes_of_ascii "root packet matchKey { zchar[ 3 ] pack @calculatedFrom( ""a	b"" ) `doc` , } options { }
-// c
-MetaData A { int8 msg_type , }")).
-Eval vm_compute in ("<<<M1556>>>" ++ check (runes_of_ascii "packet
-//	t
-// trailing space 
-_x {
-// packet A { u8 x, }
-// c
-char[
-3
-    ] u8x @lengthOf(
-u8x ) , @calculatedFrom(""" ++ [128512]%N ++ runes_of_ascii """")).
-Eval vm_compute in ("<<<M1410>>>" ++ check (runes_of_ascii "
-packet
-    falsey : Header@calculatedFrom(""packet""  ) , char[
-    0123456789 ] packetx
-    , } // `tick` ""quote"" 'q'")).
-Eval vm_compute in ("<<<M3528>>>" ++ check (runes_of_ascii "// top
-root // c0a
-  // c0b
-packet P // c2a
-  // c2b
-{ // c3
-repeat // c4
-char cs , u8 x // c9a
-  // c9b
-, // c10
-} ")).
-Eval vm_compute in ("<<<M4302>>>" ++ check (runes_of_ascii "packet A {
-    u16 len @lengthOf(body) `
-    `,
-    u32 crc @calculatedFrom(""CRC32"") `
-    `,
-    string body,
-}")).
-Eval vm_compute in ("<<<M3808>>>" ++ check (runes_of_ascii "MetaData float {
-    float64 charz `
-        `,
-}
-
-root packet chars {
-    // c
-    @rightPad('0')
-    Foo,
-}")).
-Eval vm_compute in ("<<<M3033>>>" ++ check (runes_of_ascii "packet A {
-    u16 len @lengthOf(body) `x
-`,
-    u32 crc @calculatedFrom(""CRC32"") `x
-`,
-    string body,
-}")).
-Eval vm_compute in ("<<<M3010>>>" ++ check (runes_of_ascii "packet A {
-    Inner {
-        u8 x `a
-b`,
-        Deep {
-            u8 y `a
-b`,
-        },
+} options { } MetaData A { int8 msg_type , }")).
+Eval vm_compute in ("<<<M965>>>" ++ check (runes_of_ascii "packet A {
+    match k as n {
+        ""x\
+y"" : B,
+        [""x\
+y"", 1] : C,
+        [1,2,3,4,5,""x\
+y""] : D,
     },
 }")).
-Eval vm_compute in ("<<<M4330>>>" ++ check (runes_of_ascii "// c
-MetaData float {
-    float64 charz `
-    `,
-}
-
-root packet chars {
-    @rightPad('0')
-    Foo,
-}")).
-Eval vm_compute in ("<<<M876>>>" ++ check (runes_of_ascii "packet repeatCount{ }
-root packet uint8x {
-    @rightPad ( '\x00' )
-options1//x
-As , // a // b
-}
-")).
-Eval vm_compute in ("<<<M3738>>>" ++ check (runes_of_ascii "MetaData float {
-    float64 charz `
-    `,
-}
-
-root packet chars {
-    @rightPad('0')
-    Foo,
-}")).
-Eval vm_compute in ("<<<M2247>>>" ++ check (runes_of_ascii "options
-{ } options { BodyLength= u16 Header Header= f64 ; u128 =
-    true
-    ; } // a // b")).
-Eval vm_compute in ("<<<M2954>>>" ++ check (runes_of_ascii "packet A {
+Eval vm_compute in ("<<<M888>>>" ++ check (runes_of_ascii "packet A {
   match k as n {
-    [1, ""bb"", 007, ""d"", 5, ""f"", 7, ""h"", 9] : B
+    [""a"", ""bb"", ""c c"", ""d"", ""e"", ""f"", ""g"", ""h"", ""i"", ""j"", ""k""] : B,
     2 : C
   },
 }")).
-Eval vm_compute in ("<<<M2254>>>" ++ check (runes_of_ascii "options
-{ } options { BodyLength= u16 Header""\" ++ [233]%N ++ runes_of_ascii """ f64 ; u128 =
-    true
-    ; } // a // b")).
-Eval vm_compute in ("<<<M3293>>>" ++ check (runes_of_ascii "MetaData float { float64 charz `
-` , } root packet chars { @rightPad // c
-( '0' ) Foo , }")).
-Eval vm_compute in ("<<<M3504>>>" ++ check (runes_of_ascii "packet chars { } packet MetaDataX { @tag( 42 )
-// c
-i16 string_ , repeat x `say ""hi""` , }")).
-Eval vm_compute in ("<<<M2294>>>" ++ check (runes_of_ascii "options
-{ } options { BodyLength= @ u16 Header= f64 ; u128 =
-    true
-    ; } // a // b")).
-Eval vm_compute in ("<<<M3247>>>" ++ check (runes_of_ascii "packet metadata { Logon { A `" ++ [28040; 24687; 31867; 22411]%N ++ runes_of_ascii "` , tag o , } , zchar len `// not a comment` , } // c
-")).
-Eval vm_compute in ("<<<M3211>>>" ++ check (runes_of_ascii "// c
-packet metadata { Logon { A `" ++ [28040; 24687; 31867; 22411]%N ++ runes_of_ascii "` , tag o , } , zchar len `// not a comment` , }")).
-Eval vm_compute in ("<<<M3244>>>" ++ check (runes_of_ascii "packet metadata { Logon { A `" ++ [28040; 24687; 31867; 22411]%N ++ runes_of_ascii "` , tag o , } , zchar len `// not a comment`
-// c
-, }")).
-Eval vm_compute in ("<<<M3435>>>" ++ check (runes_of_ascii "packet o { repeat // c
-Logon uint8x , } options { asx = zchar[ 3 ] stringy = '\x00' }")).
-Eval vm_compute in ("<<<M4114>>>" ++ check (runes_of_ascii "
-
-  packet A {
-
-    match
-k
-    as
-
-n
-    {
-
-    1 : B // c
-	  ,// d
-  },
-	}
-
-")).
-Eval vm_compute in ("<<<M3422>>>" ++ check (runes_of_ascii "MetaData body { i64 pack `it's` , } packet stringy { int16 calculatedFrom , } // c
-")).
-Eval vm_compute in ("<<<M3410>>>" ++ check (runes_of_ascii "MetaData body { i64 pack `it's` , } packet // c
-stringy { int16 calculatedFrom , }")).
-Eval vm_compute in ("<<<M4270>>>" ++ check (runes_of_ascii "packet A {
-    B b `
-        `,
-    B `
-        `,
-    repeat B bs `
-        `,
+Eval vm_compute in ("<<<M914>>>" ++ check (runes_of_ascii "packet A {
+    u16 len @lengthOf(body) `a
+b`,
+    u32 crc @calculatedFrom(""CRC32"") `a
+b`,
+    string body,
 }")).
-Eval vm_compute in ("<<<M2903>>>" ++ check (runes_of_ascii "packet A {
+Eval vm_compute in ("<<<M892>>>" ++ check (runes_of_ascii "packet A {
   match k as n {
-    [""a"", 22, ""c c"", 4, ""e""] : B,
+    [""a"", 22, ""c c"", 4, ""e"", 66, ""g"", 8, ""i"", 10, ""k""] : B,
     2 : C
   },
 }")).
-Eval vm_compute in ("<<<M2902>>>" ++ check (runes_of_ascii "packet A {
-  match k as n {
-    [1, ""bb"", 007, ""d"", 5] : B
-    2 : C
-  },
-}")).
-Eval vm_compute in ("<<<M2839>>>" ++ check (runes_of_ascii "false false char char[ root repeat ""`tick`"" [ MetaData { int32 '0' char[")).
-Eval vm_compute in ("<<<M2961>>>" ++ check (runes_of_ascii "packet A { Inner { match k as n { [1,22,007,4,5,66,7,8,9] : B, }, }, }")).
-Eval vm_compute in ("<<<M2739>>>" ++ check (runes_of_ascii "packet int32 ""packet"" = int64 uint64 : char[] 42 `{ , }` options 10")).
-Eval vm_compute in ("<<<M321>>>" ++ check (runes_of_ascii "MetaData // " ++ [128512]%N ++ runes_of_ascii " emoji
-Header { // trailing space 
-u64 falsey ,
-}")).
-Eval vm_compute in ("<<<M765>>>" ++ check (runes_of_ascii "// trailing space 
-packet x_y_z { @tag( 255 )char[] float ,
-}")).
-Eval vm_compute in ("<<<M1029>>>" ++ check (runes_of_ascii "// packet A { u8 x, }
-MetaData MetaDataX {
-    u8 roots , }")).
-Eval vm_compute in ("<<<M3369>>>" ++ check (runes_of_ascii "packet x { // c
-@rightPad ( ) repeat roots Logon `doc` , }")).
-Eval vm_compute in ("<<<M4420>>>" ++ check (runes_of_ascii "options {
-    falsey = ""\" ++ [233]%N ++ runes_of_ascii """;
-    lengthOf = 0;
-    // c
-}")).
-Eval vm_compute in ("<<<M1172>>>" ++ check (runes_of_ascii "options
-    { Logon
-= ' ' } MetaData
-BodyLength{  }
-")).
-Eval vm_compute in ("<<<M1245>>>" ++ check (runes_of_ascii "options{
-i8i8 =u32
-    ; msg_type  = //
-true
+Eval vm_compute in ("<<<M1512>>>" ++ check (runes_of_ascii "packet FooBar {
+    u8 a,
 }
-
-")).
-Eval vm_compute in ("<<<M4460>>>" ++ check (runes_of_ascii "  options{  lengthOf
-
-    =
-    false
-    ; }")).
-Eval vm_compute in ("<<<M3788>>>" ++ check (runes_of_ascii "options {
-    T = false;
-    tag = char[0];
-}")).
-Eval vm_compute in ("<<<M2734>>>" ++ check (runes_of_ascii "@tag( @lengthOf( , @calculatedFrom( u16 as")).
-Eval vm_compute in ("<<<M3191>>>" ++ check (runes_of_ascii "root packet // c
-u128 { chars `it's` , }")).
-Eval vm_compute in ("<<<M1158>>>" ++ check (runes_of_ascii "options {
-zchar =  int32 ; T = false}
-")).
-Eval vm_compute in ("<<<M2694>>>" ++ check ([65533; 8]%N ++ runes_of_ascii "w!67" ++ [65533; 65533; 65533; 65533; 65533; 65533; 23; 65533; 28; 65533]%N ++ runes_of_ascii "k3 k" ++ [65533; 65533; 65533; 65533; 28; 65533; 65533; 65533; 1656; 65533; 16]%N ++ runes_of_ascii "J" ++ [65533]%N ++ runes_of_ascii "F" ++ [65533; 65533]%N)).
-Eval vm_compute in ("<<<M4381>>>" ++ check (runes_of_ascii "
-packet A
-{ }	// a
-		// b
-    // c")).
-Eval vm_compute in ("<<<M2613>>>" ++ check (runes_of_ascii "packet A { match k n { 1 : B }, }")).
-Eval vm_compute in ("<<<M4239>>>" ++ check (runes_of_ascii "packet int {
+packet foo_bar {
+    u16 b,
 }
-
-packet roots {
-}")).
-Eval vm_compute in ("<<<M3062>>>" ++ check (runes_of_ascii "packet A {
- u8 x `d `, // c 
-}")).
-Eval vm_compute in ("<<<M3985>>>" ++ check (runes_of_ascii "packet
-
-    f32a 
+root packet R {
+    FooBar,
+    foo_bar,
+}
+")).
+Eval vm_compute in ("<<<M91>>>" ++ check (runes_of_ascii "// trailing space 
+MetaData u8x
 {
+i64_
+    i64_ `doc`,i16 Z9_ `say ""hi""` , BodyLength
+roots ,
+}")).
+Eval vm_compute in ("<<<M1470>>>" ++ check (runes_of_ascii "options { 
+FixedStringPadFromLeft	= true
+	; }
+
+    root	packet
+
+P{
+	char[4]
+	z
+    ,
     }
 ")).
-Eval vm_compute in ("<<<M2786>>>" ++ check (runes_of_ascii "MetaData zchar[ repeatCount")).
-Eval vm_compute in ("<<<M1120>>>" ++ check (runes_of_ascii "packet
-    Logon
-{Foo , }")).
-Eval vm_compute in ("<<<M1141>>>" ++ check (runes_of_ascii "root packet len
-    { }
-")).
-Eval vm_compute in ("<<<M2639>>>" ++ check (runes_of_ascii "root root packet A { }")).
-Eval vm_compute in ("<<<M2108>>>" ++ check (runes_of_ascii "options{
-_x
-= true
+Eval vm_compute in ("<<<M851>>>" ++ check (runes_of_ascii "packet A {
+  match k as n {
+    [1, ""bb"", 007, ""d"", 5, ""f"", 7, ""h""] : B,
+    2 : C
+  },
 }")).
-Eval vm_compute in ("<<<M2640>>>" ++ check (runes_of_ascii "root MetaData M { }")).
-Eval vm_compute in ("<<<M3061>>>" ++ check (runes_of_ascii "// c 
-packet A {
-}")).
-Eval vm_compute in ("<<<M3143>>>" ++ check (runes_of_ascii "packet A {
-}// c x")).
-Eval vm_compute in ("<<<M3118>>>" ++ check (runes_of_ascii "packet A {
-}// c" ++ [12]%N)).
-Eval vm_compute in ("<<<M2853>>>" ++ check (runes_of_ascii "X788AH5itKe=;k[")).
-Eval vm_compute in ("<<<M1179>>>" ++ check (runes_of_ascii "/// triple
+Eval vm_compute in ("<<<M1207>>>" ++ check (runes_of_ascii "MetaData float { float64 charz `
+` , } root packet chars { @rightPad (
+// c
+'0' ) Foo , }")).
+Eval vm_compute in ("<<<M1418>>>" ++ check (runes_of_ascii "packet chars { } packet MetaDataX { @tag( 42 ) i16 string_ // c
+, repeat x `say ""hi""` , }")).
+Eval vm_compute in ("<<<M1820>>>" ++ check (runes_of_ascii "packet
+    A
+	{Inner
+
+    {
+	u8 x
+
+`x
+`
+,	Deep
+{ u8 y`x
+`
+
+    , 
+}	,
+	}
+    , }
 
 ")).
-Eval vm_compute in ("<<<M2704>>>" ++ check (runes_of_ascii ") char[] ,")).
-Eval vm_compute in ("<<<M2429>>>" ++ check (runes_of_ascii "char[]x")).
-Eval vm_compute in ("<<<M2805>>>" ++ check (runes_of_ascii "as f64")).
-Eval vm_compute in ("<<<M3084>>>" ++ check (runes_of_ascii "// c" ++ [8192]%N)).
-Eval vm_compute in ("<<<M2539>>>" ++ check (runes_of_ascii "A1b2")).
-Eval vm_compute in ("<<<M2544>>>" ++ check (runes_of_ascii "a	b")).
-Eval vm_compute in ("<<<M2548>>>" ++ check (runes_of_ascii "	a")).
+Eval vm_compute in ("<<<M1148>>>" ++ check (runes_of_ascii "packet metadata { Logon { A `" ++ [28040; 24687; 31867; 22411]%N ++ runes_of_ascii "` , tag o , } , // c
+zchar len `// not a comment` , }")).
+Eval vm_compute in ("<<<M1353>>>" ++ check (runes_of_ascii "packet o { repeat Logon uint8x ,
+// c
+} options { asx = zchar[ 3 ] stringy = '\x00' }")).
+Eval vm_compute in ("<<<M1497>>>" ++ check (runes_of_ascii "packet order_item {
+    u8 a,
+}
+root packet new_order {
+    order_item,
+    u8 x,
+}
+")).
+Eval vm_compute in ("<<<M1314>>>" ++ check (runes_of_ascii "MetaData body { i64 pack
+// c
+`it's` , } packet stringy { int16 calculatedFrom , }")).
+Eval vm_compute in ("<<<M1777>>>" ++ check (runes_of_ascii "
+MetaData
+Packet 
+{
+    string
+Logon `" ++ [233]%N ++ runes_of_ascii "`  ,	int8
+	_x
+//	t
+  // " ++ [27880; 37322]%N ++ runes_of_ascii "
+    ,
+    } ")).
+Eval vm_compute in ("<<<M821>>>" ++ check (runes_of_ascii "packet A {
+  match k as n {
+    [1, 22, 007, 4, 5, 66] : B,
+    2 : C
+  },
+}")).
+Eval vm_compute in ("<<<M809>>>" ++ check (runes_of_ascii "packet A {
+  match k as n {
+    [1, 22, 007, 4, 5] : B
+    2 : C
+  },
+}")).
+Eval vm_compute in ("<<<M1475>>>" ++ check (runes_of_ascii "root packet P {
+    u16 a,
+    u32 Sum @calculatedFrom(""CRC32""),
+}
+")).
+Eval vm_compute in ("<<<M302>>>" ++ check (runes_of_ascii "
+packet
+    // a // b
+    matchKey{ @tag(//
+0 ) repeat u ,}
+
+")).
+Eval vm_compute in ("<<<M1160>>>" ++ check (runes_of_ascii "// top
+root // c0
+packet // c1
+pack // c2
+{ // c3
+} // c4
+")).
+Eval vm_compute in ("<<<M1092>>>" ++ check (runes_of_ascii "packet A {
+    match k as n {
+        1 : B,// c
+    },
+}")).
+Eval vm_compute in ("<<<M1481>>>" ++ check (runes_of_ascii "
+
+  root
+
+    packet
+P
+
+{ string
+s
+
+    ,	}
+")).
+Eval vm_compute in ("<<<M1380>>>" ++ check (runes_of_ascii "// top
+MetaData // c0
+o // c1
+{ }
+    // c3
+")).
+Eval vm_compute in ("<<<M1102>>>" ++ check (runes_of_ascii "root packet // c
+u128 { chars `it's` , }")).
+Eval vm_compute in ("<<<M1672>>>" ++ check (runes_of_ascii "packet float {
+}
+
+packet body {
+}
+//x")).
+Eval vm_compute in ("<<<M1038>>>" ++ check (runes_of_ascii "packet A {
+ u8 x `d 	`, // c 	
+}")).
+Eval vm_compute in ("<<<M1048>>>" ++ check (runes_of_ascii "packet A {
+ u8 x `d" ++ [65279]%N ++ runes_of_ascii "`, // c" ++ [65279]%N ++ runes_of_ascii "
+}")).
+Eval vm_compute in ("<<<M1173>>>" ++ check (runes_of_ascii "root packet pack { } // c
+")).
+Eval vm_compute in ("<<<M1064>>>" ++ check (runes_of_ascii "// a// bpacket A {}")).
+Eval vm_compute in ("<<<M981>>>" ++ check (runes_of_ascii "packet A {
+}
+// c" ++ [160]%N)).
+Eval vm_compute in ("<<<M151>>>" ++ check (runes_of_ascii "packet  float{ }
+")).
+Eval vm_compute in ("<<<M315>>>" ++ check (runes_of_ascii "MetaData As{ }")).
+Eval vm_compute in ("<<<M286>>>" ++ check (runes_of_ascii " //	t")).
+Eval vm_compute in ("<<<M14>>>" ++ check (runes_of_ascii "
+")).
